@@ -28,7 +28,10 @@ ASSUMPTIONS = ["operands are well-formed time series (sorted timestamps inside a
                "counted float_ambiguous in the model comparison (the statement-level oracle still judges them: a time series result must carry every operand's time axis exactly)",
                "split: the model's split_tsd is the `axis == 0` branch; the negative spelling of the time axis (axis=-ndim) and the keyword spelling (ary=) are judged by the oracle only "
                "(C14_split_negative_axis_refuted records what the code's literal test does)",
-               "not modelled: in-place operators / out= holding a time series (the implementation recurses), kwargs holding time series, TsdFrame metadata (C13), negative split indices, jax backend"]
+               "not modelled: in-place operators / out= holding a time series (the implementation recurses), kwargs holding time series, TsdFrame metadata (C13), negative split indices, jax backend",
+               "argument-form cases: the model is asked whenever the form reaches the code it models (all dtypes, labels coded as integers, histories, placements, units); it is NOT asked (statement oracle only) for "
+               "np.concatenate with a positional axis that is not a Python int (the model takes NumPy's output as given and has no argument parsing), np.array / np.asarray conversions (not dispatched), negative split indices; "
+               "with non-finite data the model's cell comparison is dropped (class, time axis, support, shape and labels are still compared)"]
 
 U = 1953125  # 2^-9 s in ticks
 
@@ -40,23 +43,280 @@ def _nap():
 
 # ------------------------------------------------------------------------------------------------
 # objects
-def mk(nap, shape, t0=0, sup=None, dtype=float, base=1, cols_base=10, ticks=None):
-    """time series of the class given by the rank of `shape`; times t0 + 2U*i (or `ticks`); distinct small integer cells"""
+SEC = 10 ** 9
+DTYPES = [np.float32, np.int64, np.int32, np.int16, np.int8, np.uint8, np.uint16, np.uint32, np.uint64, np.bool_]
+FILLS = ["nan", "pinf", "ninf", "pminf", "equal", "zeros"]
+LABELS = ["str", "int_unsorted", "float", "mixed", "default", "str_unsorted"]
+TFORMS = ["list", "tuple", "pd.Index", "pd.Series", "tsindex", "other.t", "ms", "us", "kw"]
+TFORMS_INT = ["int64", "int32", "uint64", "uint8", "pyint_list", "ms_int"]   # need whole-second ticks
+_TMP = [None]
+
+
+def tmpdir():
+    if _TMP[0] is None:
+        import tempfile
+        _TMP[0] = tempfile.mkdtemp(prefix="c14_", dir=C.CACHE if __import__("os").path.isdir(C.CACHE) else None)
+    return _TMP[0]
+
+
+def fill_data(shape, dtype, base, fill=None):
+    """distinct small integer cells of the given dtype (bool: a mixed pattern); `fill` overwrites with special values"""
+    size = int(np.prod(shape))
+    dt = np.dtype(dtype)
+    if dt.kind == "b" and fill is not None:
+        d = ((np.arange(size) + base) % 3 != 0).reshape(shape)
+    else:
+        d = (np.arange(size) + base).reshape(shape).astype(dtype)
+    if fill in (None, "arange"):
+        return d
+    d = np.array(d)
+    flat = d.reshape(-1)
+    if fill == "zeros":
+        flat[:] = 0
+    elif fill == "equal":
+        flat[:] = 3
+    elif dt.kind == "f" and size:
+        if fill == "nan":
+            flat[::3] = np.nan
+        elif fill == "pinf":
+            flat[1::3] = np.inf
+            flat[:1] = np.inf
+        elif fill == "ninf":
+            flat[::4] = -np.inf
+        elif fill == "pminf":                        # +inf and -inf side by side (their sum is NaN), a NaN at the end
+            flat[0] = np.inf
+            flat[1:2] = -np.inf
+            if size > 2:
+                flat[-1] = np.nan
+    return d
+
+
+def labels_for(kind, k, cb):
+    if kind == "str":
+        return ["c%d" % (cb + j) for j in range(k)]
+    if kind == "str_unsorted":
+        return ["c%d" % (cb + (k - 1 - j)) for j in range(k)]
+    if kind == "int_unsorted":                       # integers that are neither 0..k-1 nor sorted
+        return [cb + 3 * ((j * 2 + 1) % max(k, 1)) + (50 if j % 2 else 0) for j in range(k)]
+    if kind == "float":
+        return [cb + j + 0.5 for j in range(k)]
+    if kind == "mixed":
+        return [("c%d" % (cb + j)) if j % 2 else cb + j for j in range(k)]
+    if kind == "default":
+        return None
+    return [cb + j for j in range(k)]
+
+
+def lab(c):
+    """a column label as a plain Python value"""
+    if isinstance(c, (bool, np.bool_)):
+        return bool(c)
+    if isinstance(c, (int, np.integer)):
+        return int(c)
+    if isinstance(c, (float, np.floating)):
+        return float(c)
+    return str(c)
+
+
+def colcode(l):
+    """injective integer code of a label (the model's labels are integers): ints (< 1000) as they are, 'c<k>' -> 1000 + k, k + 0.5 -> 2000 + 2k + 1"""
+    if isinstance(l, bool):
+        return 3000 + int(l)
+    if isinstance(l, int):
+        return l
+    if isinstance(l, float):
+        return 2000 + int(round(2 * l))
+    return 1000 + int(l[1:]) if l[:1] == "c" and l[1:].isdigit() else 4000 + sum(map(ord, l))
+
+
+def split_support(sup, ticks):
+    """the same samples under MANY intervals: every gap between two consecutive distinct samples of an interval is cut into
+    [.., p + g/8], an island [p + 3g/8, p + 5g/8] holding no sample, [q - g/8, ..]: intervals with one sample and with none"""
+    out = []
+    for a, b in sup:
+        ins = sorted(set(t for t in ticks if a <= t <= b))
+        cur = a
+        for p, q in zip(ins, ins[1:]):
+            g = q - p
+            if g < 80000:
+                continue
+            out.append((cur, p + g // 8))
+            out.append((p + 3 * g // 8, p + 5 * g // 8))
+            cur = q - g // 8
+        out.append((cur, b))
+    return out
+
+
+def time_arg(nap, ticks, tform):
+    """the timestamps `ticks` in the argument form `tform` -> (t, time_units)"""
+    import pandas as pd
+    a = G.arr(ticks)
+    if tform in (None, "ndarray", "kw", "pandas_ctor"):
+        return a, "s"
+    if tform == "list":
+        return a.tolist(), "s"
+    if tform == "tuple":
+        return tuple(a.tolist()), "s"
+    if tform == "pd.Index":
+        return pd.Index(a, dtype=np.float64), "s"
+    if tform == "pd.Series":
+        return pd.Series(a, dtype=np.float64), "s"
+    if tform == "tsindex":                          # another object's TsIndex
+        return nap.Ts(a).index, "s"
+    if tform == "other.t":
+        return nap.Ts(a).t, "s"
+    if tform == "ms":
+        return np.asarray(ticks, dtype=np.float64) / 1e6 if len(ticks) else np.array([]), "ms"
+    if tform == "us":
+        return np.asarray(ticks, dtype=np.float64) / 1e3 if len(ticks) else np.array([]), "us"
+    if tform == "ms_int":
+        assert all(t % 10 ** 6 == 0 for t in ticks)
+        return np.asarray([t // 10 ** 6 for t in ticks], dtype=np.int64), "ms"
+    assert all(t % SEC == 0 for t in ticks), "integer time forms need whole seconds"
+    secs = [t // SEC for t in ticks]
+    if tform == "pyint_list":
+        return [int(v) for v in secs], "s"
+    return np.asarray(secs, dtype={"int64": np.int64, "int32": np.int32, "uint64": np.uint64, "uint8": np.uint8}[tform]), "s"
+
+
+def mk(nap, shape, t0=0, sup=None, dtype=float, base=1, cols_base=10, ticks=None, v=None):
+    """time series of the class given by the rank of `shape`; times t0 + 2U*i (or `ticks`); distinct small integer cells.
+    v = variant of the ARGUMENT FORMS (all optional): fill (special data values), tform (form of t), step (tick spacing), origin (shift of every time),
+    sup ('one' | 'many' | 'default' = no time_support passed), labels, metadata, dup ('pairs' | 'all_equal'), hist (a multi-step history)"""
+    v = v or {}
     n = shape[0]
-    ticks = [t0 + 2 * U * i for i in range(n)] if ticks is None else ticks
+    hist = v.get("hist")
+    pad = 1 if hist in ("slice", "restrict", "get", "split_piece", "bool_index") else 0      # the parent holds one more row at each end
+    org = v.get("origin", 0)
+    step = v.get("step", 2 * U)
+    t0 = t0 + org
+    m = n + 2 * pad
+    if ticks is None:
+        ticks = [t0 + step * (i - pad) for i in range(m)]
+        if v.get("dup") == "pairs":
+            ticks = [t0 + step * ((i - pad) // 2) for i in range(m)]
+        elif v.get("dup") == "all_equal":
+            ticks = [t0] * m
+    else:
+        ticks = [t + org for t in ticks]
+        assert not pad
     if sup is None:
-        sup = [(t0 - U, t0 + 4 * U + 1000), (t0 + 6 * U - 1000, t0 + 2 * U * max(n, 5) + U)]
-    d = (np.arange(int(np.prod(shape))) + base).reshape(shape).astype(dtype)
-    ep = nap.IntervalSet(G.arr([s for s, _ in sup]), G.arr([e for _, e in sup]))
-    if len(shape) == 1:
-        return nap.Tsd(G.arr(ticks), d, time_support=ep)
-    if len(shape) == 2:
-        return nap.TsdFrame(G.arr(ticks), d, time_support=ep, columns=[cols_base + j for j in range(shape[1])])
-    return nap.TsdTensor(G.arr(ticks), d, time_support=ep)
+        sup = [(t0 - step // 2 - pad * step, t0 + 2 * step + 1000), (t0 + 3 * step - 1000, t0 + step * (max(n, 5) + pad) + step // 2)]
+    else:
+        sup = [(s + org, e + org) for s, e in sup]
+        assert not pad
+    skind = v.get("sup")
+    if skind == "one":
+        sup = [(sup[0][0], sup[-1][1])]
+    elif skind == "many":
+        sup = split_support(sup, ticks)
+    dshape = (m,) + tuple(shape[1:])
+    d = fill_data(dshape, dtype, base, v.get("fill"))
+    if v.get("dform") == "list" and m > 0:         # (an empty nested list has lost its trailing dimensions)
+        d = d.tolist()
+    tform = v.get("tform")
+    if tform == "pd.Series" and len(shape) == 1:
+        tform = "pd.Index"          # Tsd(t=<pandas Series>, d) IS the pandas constructor (the Series' index becomes the time axis and d is ignored): not a form of t for a Tsd
+    t, units = time_arg(nap, ticks, tform)
+    kw = {}
+    if not (skind == "default" and len(set(ticks)) >= 2):
+        kw["time_support"] = nap.IntervalSet(G.arr([s for s, _ in sup]), G.arr([e for _, e in sup]))
+    if units != "s":
+        kw["time_units"] = units
+    rank = len(shape)
+    if rank == 2:
+        lb = labels_for(v.get("labels"), shape[1], cols_base)
+        if lb is not None:
+            kw["columns"] = lb
+        if v.get("metadata"):
+            kw["metadata"] = {"grp": [j % 2 for j in range(shape[1])]}
+    cls = nap.Tsd if rank == 1 else nap.TsdFrame if rank == 2 else nap.TsdTensor
+    if tform == "pandas_ctor" and rank <= 2:
+        import pandas as pd
+        kw.pop("columns", None)
+        if rank == 1:
+            x = nap.Tsd(pd.Series(np.asarray(d), index=G.arr(ticks)), **kw)
+        else:
+            lb = labels_for(v.get("labels"), shape[1], cols_base)
+            x = nap.TsdFrame(pd.DataFrame(np.asarray(d), index=G.arr(ticks), columns=lb if lb is not None else list(range(shape[1]))), **kw)
+    elif tform == "kw":
+        x = cls(t=t, d=d, **kw)
+    else:
+        x = cls(t, d, **kw)
+    if hist is None:
+        return x
+    lo, hi = (ticks[pad], ticks[m - 1 - pad]) if n else (None, None)
+    if hist == "slice":
+        return x[pad:pad + n]
+    if hist == "split_piece":
+        return np.split(x, [pad, pad + n])[1]
+    if hist == "bool_index":
+        mask = np.zeros(m, dtype=bool)
+        mask[pad:pad + n] = True
+        return x[mask]
+    if hist == "get":
+        return x.get(lo / 1e9, hi / 1e9) if n else x[0:0]
+    if hist == "restrict":
+        if not n:
+            return x[0:0]
+        return x.restrict(nap.IntervalSet(G.arr([lo - step // 4, lo + step // 2] if n > 1 else [lo - step // 4]), G.arr([lo + step // 4, hi + step // 4] if n > 1 else [hi + step // 4])))
+    if hist == "arith":
+        return (x + 0) if np.dtype(dtype).kind != "b" else (x | False)
+    if hist == "npfunc":
+        return np.flip(np.flip(x, -1), -1) if rank > 1 else np.copy(x)
+    if hist == "astype":
+        return x.astype(np.dtype(dtype))
+    if hist == "concat":
+        return np.concatenate([x[:n // 2], x[n // 2:]]) if n >= 2 else x
+    if hist == "saveload":
+        import os
+        _TMP.append(0)
+        path = os.path.join(tmpdir(), "o%d.npz" % (len(_TMP) % 40))
+        x.save(path)
+        return nap.load_file(path)
+    if hist == "loc" and rank == 2 and shape[1] >= 1:
+        cols = list(x.columns)
+        return x.loc[cols]
+    return x
 
 
 def is_nap(nap, r):
     return isinstance(r, (nap.Tsd, nap.TsdFrame, nap.TsdTensor))
+
+
+def short(r):
+    """a short description of an outcome for the evidence (repr of a time series may itself raise: it is not what is being checked here)"""
+    try:
+        return str(r)[:80]
+    except Exception:  # noqa: BLE001
+        return type(r).__name__
+
+
+HIST_C14 = ("arith", "npfunc", "astype", "concat", "split_piece")    # histories made of this property's own operations
+
+
+def build(nap, res, shape, v=None, **kw):
+    """mk, robust: when a receiver cannot be built, (a) it is a violation if the failing step is one of THIS property's operations (the history is an arithmetic /
+    NumPy function / astype / split / concatenate call on an object the constructor accepts), (b) otherwise it is not an input of this property (counted)"""
+    try:
+        x = mk(nap, shape, v=v, **kw)
+        if x.shape[0] == 0 and len(x.time_support):
+            # ASSUMPTIONS: "an empty series has the empty support" (the base constructor gives every empty result the empty support): not an input of this property
+            res.count("not_generated:empty_series_with_non_empty_support")
+            return None
+        return x
+    except Exception as ex:  # noqa: BLE001
+        h = (v or {}).get("hist")
+        if h in HIST_C14:
+            try:
+                mk(nap, shape, v={k: w for k, w in v.items() if k != "hist"}, **kw)
+                viol(res, {"op": "array_function", "part": "raises", "receiver_history": h}, "NumPy accepts the call on the raw array but the history step '%s' on the time series raises %s" % (h, type(ex).__name__),
+                     {"shape": list(shape), "variant": vname(v)}, impl=type(ex).__name__)
+                return None
+            except Exception:  # noqa: BLE001
+                pass
+        res.count("receiver_not_constructible:" + type(ex).__name__)
+        return None
 
 
 def klass(nap, r):
@@ -72,7 +332,24 @@ def sup_of(r):
 
 
 def cols_of(nap, r):
-    return [int(c) for c in r.columns] if isinstance(r, nap.TsdFrame) else []
+    return [lab(c) for c in r.columns] if isinstance(r, nap.TsdFrame) else []
+
+
+def exact_cells(v):
+    """cells as integers when they ARE integers (small integer data of any dtype), else None"""
+    v = np.asarray(v)
+    if v.dtype.kind in "iub":
+        return [int(c) for c in v.ravel()]
+    with np.errstate(all="ignore"):
+        if v.dtype.kind == "f" and (not v.size or (bool(np.all(np.isfinite(v))) and bool(np.all(v == np.floor(v))))):
+            return [int(c) for c in v.ravel()]
+    return None
+
+
+def int_cells(v):
+    """cells for the model (which never looks inside a NumPy result): non-finite / fractional cells are replaced by their position"""
+    c = exact_cells(v)
+    return c if c is not None else list(range(np.asarray(v).size))
 
 
 def ts6(nap, x):
@@ -80,9 +357,9 @@ def ts6(nap, x):
     if is_nap(nap, x):
         v = np.asarray(x.values)
         return "\t".join([str(klass(nap, x)), C.fmt_ints(ticks_of(x)), C.fmt_iset(sup_of(x)), C.fmt_ints(v.shape),
-                          C.fmt_ints(v.ravel()), C.fmt_ints(cols_of(nap, x))])
+                          C.fmt_ints(int_cells(v)), C.fmt_ints([colcode(l) for l in cols_of(nap, x)])])
     v = np.asarray(x)
-    return "\t".join(["9", "", "", C.fmt_ints(v.shape), C.fmt_ints(v.ravel()), ""])
+    return "\t".join(["9", "", "", C.fmt_ints(v.shape), C.fmt_ints(int_cells(v)), ""])
 
 
 def npres_arg(exp):
@@ -164,7 +441,7 @@ def agree(nap, m, got, cells_expected=None):
             return "model: time series"
         if klass(nap, r) != m["k"] or ticks_of(r) != m["t"] or sup_of(r) != m["sup"] or tuple(r.values.shape) != m["shape"]:
             return "model: class %d t %s sup %s shape %s" % (m["k"], m["t"], m["sup"], m["shape"])
-        if m["k"] == 1 and cols_of(nap, r) != m["cols"]:
+        if m["k"] == 1 and [colcode(l) for l in cols_of(nap, r)] != m["cols"]:
             return "model: columns %s" % m["cols"]
         if cells_expected is not None and m["cells"] != cells_expected:
             return "model cells differ from NumPy's"
@@ -179,16 +456,35 @@ def M(nap, X, name, *a, **k):
     return getattr(X, name)(*a, **k) if is_nap(nap, X) else getattr(np, name)(X, *a, **k)
 
 
-def others(shape, dtype):
+NEW_KINDS = ["pyint", "pyfloat", "pybool", "np.float32", "np.int64", "np.uint8", "np.float64", "0d", "0d_f32", "list", "tuple", "int32_array", "bool_array",
+             "float_array", "nan", "inf", "-inf", "complex", "self.values", "self.values[::-1]", "self.values.T", "fortran_array", "strided_view", "self.t", "self.index"]
+
+
+def others(shape, dtype, x=None):
     """operand kinds for binary functions, built from x's shape"""
     size = int(np.prod(shape))
-    out = {"scalar": dtype(2), "array": (np.arange(size).reshape(shape) % 3 + 1).astype(dtype),
+    arr = (np.arange(size).reshape(shape) % 3 + 1).astype(dtype)
+    out = {"scalar": dtype(2), "array": arr,
            # a plain Python number (NumPy 2 treats it as a weak scalar: the result keeps x's dtype, and wraps for small integer dtypes)
            "pyscalar": 100 if np.dtype(dtype).kind in "iu" else 1.5}
     if len(shape) >= 2:
         out["row"] = (np.arange(int(np.prod(shape[1:]))).reshape(shape[1:]) + 1).astype(dtype)       # broadcast along time
         out["col"] = (np.arange(shape[0]).reshape((shape[0],) + (1,) * (len(shape) - 1)) + 1).astype(dtype)
     out["higher"] = (np.arange(2 * size).reshape((2,) + tuple(shape)) + 1).astype(dtype)             # rank + 1, leading axis 2
+    # ---- argument FORMS of the second operand (axis 2): Python int / float / bool, NumPy scalars, 0-d arrays, list, tuple, arrays of another dtype, non-finite scalars
+    out.update({"pyint": 2, "pyfloat": 2.0, "pybool": True, "np.float32": np.float32(2), "np.int64": np.int64(2), "np.uint8": np.uint8(2), "np.float64": np.float64(2.5),
+                "0d": np.array(2, dtype=dtype), "0d_f32": np.array(2, dtype=np.float32), "list": arr.tolist(), "tuple": tuple(arr.tolist()),
+                "int32_array": arr.astype(np.int32), "bool_array": (arr % 2).astype(bool), "float_array": arr.astype(np.float64) + 0.5,
+                "nan": float("nan"), "inf": float("inf"), "-inf": float("-inf"), "complex": 1j,
+                "fortran_array": np.asfortranarray(arr), "strided_view": np.repeat(arr, 2, axis=0)[::2]})
+    # ---- operands that share memory with x (axis 8)
+    if x is not None:
+        out["self.values"] = x.values
+        out["self.values[::-1]"] = x.values[::-1]
+        out["self.t"] = x.t                            # the receiver's own timestamps as an operand: ndarray, and the TsIndex (an ndarray subclass)
+        out["self.index"] = x.index
+        if len(shape) == 2 and shape[0] == shape[1]:
+            out["self.values.T"] = x.values.T
     return out
 
 
@@ -352,14 +648,332 @@ def table(nap):
     return T
 
 
+def table_forms(nap):
+    """axis 3: the same calls with their parameters spelled positionally AND by keyword, optional parameters at non-default values, option flags COMBINED
+    (every entry is judged like the entries of table(): bit-for-bit NumPy's result on the raw array, time axis / class / labels per the statement)"""
+    T = []
+
+    def add(name, tag, f, operand=None, dtype=float):
+        T.append((name, tag, f, operand, dtype))
+
+    def tail_mask(X):
+        return (np.arange(int(np.prod(np.shape(X)))).reshape(np.shape(X)) % 2 == 0)
+    # reductions: positional axis, method with positional axis, tuple axis, NumPy-integer axis, the array itself by keyword
+    for r in ["sum", "mean", "max", "min", "prod", "any", "argmax", "std"]:
+        for ax in [0, 1, -1]:
+            add("%s(X,%d)" % (r, ax), "plain", (lambda X, o, r=r, ax=ax: getattr(np, r)(X, ax)))
+        add("%s(a=X,axis=0)" % r, "plain", (lambda X, o, r=r: getattr(np, r)(a=X, axis=0)))
+        add("%s(a=X,axis=1)" % r, "plain", (lambda X, o, r=r: getattr(np, r)(a=X, axis=1)))
+        add("%s(X,axis=np.int64(1))" % r, "plain", (lambda X, o, r=r: getattr(np, r)(X, axis=np.int64(1))))
+    for r in ["sum", "mean", "max", "std", "cumsum", "argmin", "all"]:
+        for ax in [0, 1]:
+            add("x.%s(%d)" % (r, ax), "plain", (lambda X, o, r=r, ax=ax: M(nap, X, r, ax)))
+    for r in ["sum", "mean", "max", "std", "median", "nansum", "count_nonzero", "ptp"]:
+        add("%s(axis=(0,1))" % r, "plain", (lambda X, o, r=r: getattr(np, r)(X, axis=(0, 1))))
+        add("%s(axis=(1,))" % r, "plain", (lambda X, o, r=r: getattr(np, r)(X, axis=(1,))))
+        add("%s(axis=(1,2))" % r, "plain", (lambda X, o, r=r: getattr(np, r)(X, axis=(1, 2))))
+        add("%s(axis=1,keepdims)" % r, "plain", (lambda X, o, r=r: getattr(np, r)(X, axis=1, keepdims=True)))
+        add("%s(axis=None,keepdims)" % r, "plain", (lambda X, o, r=r: getattr(np, r)(X, axis=None, keepdims=True)))
+    # optional parameters at None where None is the documented default
+    add("sum(X,None)", "plain", lambda X, o: np.sum(X, None))
+    add("mean(axis=None,dtype=None,out=None)", "plain", lambda X, o: np.mean(X, axis=None, dtype=None, out=None))
+    add("cumsum(X,None)", "plain", lambda X, o: np.cumsum(X, None))
+    add("squeeze(X,None)", "plain", lambda X, o: np.squeeze(X, None))
+    add("argmax(X,None)", "plain", lambda X, o: np.argmax(X, None))
+    add("std(axis=0,dtype=None,out=None,ddof=0)", "plain", lambda X, o: np.std(X, axis=0, dtype=None, out=None, ddof=0))
+    add("round(X,0,None)", "ew", lambda X, o: np.round(X, 0, None))
+    add("clip(X,2,4,None)", "ew", lambda X, o: np.clip(X, 2, 4, None))
+    add("repeat(X,2,None)", "plain", lambda X, o: np.repeat(X, 2, None))
+    add("take(X,[0],None)", "plain", lambda X, o: np.take(X, [0], None))
+    add("roll(X,1,None)", "plain", lambda X, o: np.roll(X, 1, None))
+    add("transpose(X,None)", "plain", lambda X, o: np.transpose(X, None))
+    add("delete(X,0,None)", "plain", lambda X, o: np.delete(X, 0, None))
+    add("add(X,1,None)", "ew", lambda X, o: np.add(X, 1, None))
+    add("add(X,1,out=None,where=True,dtype=None)", "ew", lambda X, o: np.add(X, 1, out=None, where=True, dtype=None))
+    # option flags combined
+    add("sum(axis=1,dtype=f32,keepdims)", "plain", lambda X, o: np.sum(X, axis=1, dtype=np.float32, keepdims=True))
+    add("sum(axis=1,dtype=f32)", "plain", lambda X, o: np.sum(X, axis=1, dtype=np.float32))
+    add("sum(X,1,f32,None,True)", "plain", lambda X, o: np.sum(X, 1, np.float32, None, True))
+    add("sum(axis=1,where,initial)", "plain", lambda X, o: np.sum(X, axis=1, where=tail_mask(X), initial=5))
+    add("sum(axis=0,where,keepdims)", "plain", lambda X, o: np.sum(X, axis=0, where=tail_mask(X), keepdims=True))
+    add("mean(axis=1,dtype=f64,keepdims)", "plain", lambda X, o: np.mean(X, axis=1, dtype=np.float64, keepdims=True))
+    add("mean(axis=-1,where)", "plain", lambda X, o: np.mean(X, axis=-1, where=tail_mask(X)))
+    add("std(axis=1,ddof=1,keepdims)", "plain", lambda X, o: np.std(X, axis=1, ddof=1, keepdims=True))
+    add("std(X,0,None,None,1)", "plain", lambda X, o: np.std(X, 0, None, None, 1))
+    add("var(axis=0,ddof=1,dtype=f32)", "plain", lambda X, o: np.var(X, axis=0, ddof=1, dtype=np.float32))
+    add("max(axis=1,initial,keepdims)", "plain", lambda X, o: np.max(X, axis=1, initial=3, keepdims=True))
+    add("min(axis=1,initial,where)", "plain", lambda X, o: np.min(X, axis=1, initial=100, where=tail_mask(X)))
+    add("argmax(axis=1,keepdims)", "plain", lambda X, o: np.argmax(X, axis=1, keepdims=True))
+    add("argmin(axis=0,keepdims)", "plain", lambda X, o: np.argmin(X, axis=0, keepdims=True))
+    add("median(axis=1,keepdims)", "plain", lambda X, o: np.median(X, axis=1, keepdims=True))
+    add("quantile(.5,axis=1,keepdims,method=lower)", "plain", lambda X, o: np.quantile(X, 0.5, axis=1, keepdims=True, method="lower"))
+    add("quantile(q=,axis=-1)", "plain", lambda X, o: np.quantile(X, q=[0.25, 0.75], axis=-1))
+    add("percentile(X,[25,75],1)", "plain", lambda X, o: np.percentile(X, [25, 75], 1))
+    add("nanmean(axis=1,keepdims)", "plain", lambda X, o: np.nanmean(X, axis=1, keepdims=True))
+    add("average(axis=1,weights)", "plain", lambda X, o: np.average(X, axis=1, weights=np.arange(np.shape(X)[1]) + 1.0))
+    add("average(axis=0,weights,returned)", "plain", lambda X, o: np.average(X, axis=0, weights=np.arange(np.shape(X)[0]) + 1.0, returned=True))
+    add("average(axis=1,keepdims)", "plain", lambda X, o: np.average(X, axis=1, keepdims=True))
+    # cumulative / differences
+    add("cumsum(X,0)", "plain", lambda X, o: np.cumsum(X, 0))
+    add("cumsum(X,1)", "plain", lambda X, o: np.cumsum(X, 1))
+    add("cumsum(axis=1,dtype=f32)", "plain", lambda X, o: np.cumsum(X, axis=1, dtype=np.float32))
+    add("cumsum(a=X,axis=0,dtype=f64)", "plain", lambda X, o: np.cumsum(a=X, axis=0, dtype=np.float64))
+    add("cumprod(X,0,f64)", "plain", lambda X, o: np.cumprod(X, 0, np.float64))
+    add("diff(X,1,0)", "plain", lambda X, o: np.diff(X, 1, 0))
+    add("diff(n=2,axis=0)", "plain", lambda X, o: np.diff(X, n=2, axis=0))
+    add("diff(n=0)", "plain", lambda X, o: np.diff(X, n=0))
+    add("diff(axis=0,prepend)", "plain", lambda X, o: np.diff(X, axis=0, prepend=0))
+    add("diff(axis=0,prepend,append)", "plain", lambda X, o: np.diff(X, axis=0, prepend=0, append=0))
+    add("diff(axis=-1,prepend)", "plain", lambda X, o: np.diff(X, axis=-1, prepend=0))
+    add("gradient(X,2.0,axis=0,edge_order=1)", "plain", lambda X, o: np.gradient(X, 2.0, axis=0, edge_order=1))
+    add("gradient(axis=(0,))", "plain", lambda X, o: np.gradient(X, axis=(0,)))
+    # element-wise functions with keywords
+    add("clip(a_min=,a_max=)", "ew", lambda X, o: np.clip(X, a_min=2, a_max=4))
+    add("clip(a=X,a_min=,a_max=)", "ew", lambda X, o: np.clip(a=X, a_min=2, a_max=4))
+    add("clip(X,None,4)", "ew", lambda X, o: np.clip(X, None, 4))
+    add("clip(X,2,None)", "ew", lambda X, o: np.clip(X, 2, None))
+    add("clip(X,lo_array,hi_array)", "ew", lambda X, o: np.clip(X, o, o + 2), "array")
+    add("x.clip(min=,max=)", "ew", lambda X, o: M(nap, X, "clip", min=2, max=4))
+    add("round(X,1)", "ew", lambda X, o: np.round(X, 1))
+    add("round(decimals=-1)", "ew", lambda X, o: np.round(X, decimals=-1))
+    add("round(a=X)", "ew", lambda X, o: np.round(a=X))
+    add("x.round(1)", "ew", lambda X, o: M(nap, X, "round", 1))
+    add("nan_to_num(nan=,posinf=,neginf=)", "ew", lambda X, o: np.nan_to_num(X, nan=7.0, posinf=8.0, neginf=-8.0))
+    add("nan_to_num(x=X)", "ew", lambda X, o: np.nan_to_num(x=X))
+    add("nan_to_num(X,True,1.0)", "ew", lambda X, o: np.nan_to_num(X, True, 1.0))
+    add("copy(order=F)", "ew", lambda X, o: np.copy(X, order="F"))
+    add("copy(a=X)", "ew", lambda X, o: np.copy(a=X))
+    add("zeros_like(dtype=i8)", "ew", lambda X, o: np.zeros_like(X, dtype=np.int8))
+    add("ones_like(a=X)", "ew", lambda X, o: np.ones_like(a=X))
+    add("full_like(fill_value=,dtype=)", "ew", lambda X, o: np.full_like(X, fill_value=3, dtype=np.float32))
+    add("empty_like.shape", "plain", lambda X, o: np.empty_like(X).shape)
+    add("where(c,x,array)", "ew", lambda X, o: np.where(np.asarray(X) > 2, X, o), "array")
+    add("where(c,array,x)", "ew", lambda X, o: np.where(np.asarray(X) > 2, o, X), "array")
+    add("where(c,x,x)", "ew", lambda X, o: np.where(np.asarray(X) > 2, X, X))
+    add("isin(test_elements=,invert)", "ew", lambda X, o: np.isin(X, test_elements=[1, 2, 3], invert=True))
+    add("isclose(atol=1)", "ew", lambda X, o: np.isclose(X, 2.0, rtol=0, atol=1))
+    add("isclose(equal_nan)", "ew", lambda X, o: np.isclose(X, X, equal_nan=True))
+    add("x.astype(f32)", "ew", lambda X, o: X.astype(np.float32))
+    add("x.astype(dtype=,copy=)", "ew", lambda X, o: X.astype(dtype=np.int16, copy=True) if not is_nap(nap, X) else X.astype(np.int16, copy=True))
+    add("astype(X,bool)", "ew", lambda X, o: np.astype(X, bool))
+    add("isneginf", "ew", lambda X, o: np.isneginf(X))
+    add("isposinf", "ew", lambda X, o: np.isposinf(X))
+    add("isinf", "ew", lambda X, o: np.isinf(X))
+    add("sinc", "ew", lambda X, o: np.sinc(X))
+    add("heaviside", "ew", lambda X, o: np.heaviside(X, 0.5))
+    add("fix", "ew", lambda X, o: np.fix(X))
+    add("trunc", "ew", lambda X, o: np.trunc(X))
+    add("float_power", "ew", lambda X, o: np.float_power(X, 2))
+    add("nextafter", "ew", lambda X, o: np.nextafter(X, 100))
+    add("ldexp", "ew", lambda X, o: np.ldexp(X, 2))
+    # ufunc keywords (flags combined)
+    add("add(dtype=f32)", "ew", lambda X, o: np.add(X, 1, dtype=np.float32))
+    add("add(out=None,casting=unsafe,dtype=i8)", "ew", lambda X, o: np.add(X, 1, out=None, casting="unsafe", dtype=np.int8))
+    add("multiply(order=F,subok=False)", "ew", lambda X, o: np.multiply(X, 2, order="F", subok=False))
+    add("sqrt(dtype=f32)", "ew", lambda X, o: np.sqrt(X, dtype=np.float32))
+    add("negative(where,out=zeros)", "ew", lambda X, o: np.negative(X, where=tail_mask(X), out=np.zeros(np.shape(X))))
+    add("add(where,out=zeros)", "ew", lambda X, o: np.add(X, 1, where=tail_mask(X), out=np.zeros(np.shape(X))))
+    add("add(X,1,buffer)", "ew", lambda X, o: np.add(X, 1, np.zeros(np.shape(X))))
+    add("add(out=(buffer,))", "ew", lambda X, o: np.add(X, 1, out=(np.zeros(np.shape(X)),)))
+    add("greater(dtype=bool)", "ew", lambda X, o: np.greater(X, 2, dtype=bool))
+    add("divmod(dtype=f64)", "ew_multi", lambda X, o: np.divmod(X, 2, dtype=np.float64))
+    add("modf(out=(None,None))", "ew_multi", lambda X, o: np.modf(X, out=(None, None)))
+    # three operands / combined operators (a result of one operation fed into the next)
+    add("(x+1)*2-x.values", "ew", lambda X, o: (X + 1) * 2 - np.asarray(X))
+    add("abs(-x)**2", "ew", lambda X, o: abs(-X) ** 2)
+    add("~(x>2)", "ew", lambda X, o: ~(X > 2))
+    add("cumsum(x*2,axis=0)", "plain", lambda X, o: np.cumsum(X * 2, axis=0))
+    add("sum(x*x.values,axis=1)", "plain", lambda X, o: np.sum(X * np.asarray(X), axis=1))
+    add("mean(x-mean(x,0),1)", "plain", lambda X, o: np.mean(X - np.mean(X, 0), 1))
+    add("fma: add(multiply(x,2),array)", "ew", lambda X, o: np.add(np.multiply(X, 2), o), "array")
+    # reshaping / indexing with keywords and non-default options
+    add("reshape(X,shape,order=F)", "plain", lambda X, o: np.reshape(X, np.shape(X), order="F"))
+    add("reshape(X,(n,-1),order=F)", "plain", lambda X, o: np.reshape(X, (np.shape(X)[0], -1), order="F") if np.shape(X)[0] else np.reshape(X, (0, 1)))
+    add("x.reshape((n,-1))", "plain", lambda X, o: X.reshape((np.shape(X)[0], -1)) if np.shape(X)[0] else X.reshape((0, 1)))
+    add("ravel(order=F)", "plain", lambda X, o: np.ravel(X, order="F"))
+    add("transpose(axes=identity)", "plain", lambda X, o: np.transpose(X, axes=tuple(range(np.ndim(X)))))
+    add("transpose(X,reversed)", "plain", lambda X, o: np.transpose(X, tuple(range(np.ndim(X)))[::-1]))
+    add("transpose(keep time,swap others)", "plain", lambda X, o: np.transpose(X, (0,) + tuple(range(1, np.ndim(X)))[::-1]))
+    add("swapaxes(axis1=,axis2=)", "plain", lambda X, o: np.swapaxes(X, axis1=0, axis2=-1))
+    add("swapaxes(1,2)", "plain", lambda X, o: np.swapaxes(X, 1, 2))
+    add("moveaxis(source=,destination=)", "plain", lambda X, o: np.moveaxis(X, source=0, destination=-1))
+    add("moveaxis(-1,1)", "plain", lambda X, o: np.moveaxis(X, -1, 1))
+    add("squeeze(axis=-1)", "plain", lambda X, o: np.squeeze(X, axis=-1))
+    add("squeeze(axis=0)", "plain", lambda X, o: np.squeeze(X, axis=0))
+    add("expand_dims(axis=)", "plain", lambda X, o: np.expand_dims(X, axis=1))
+    add("expand_dims(a=X,axis=(1,2))", "plain", lambda X, o: np.expand_dims(a=X, axis=(1, 2)))
+    add("flip(axis=0)", "plain", lambda X, o: np.flip(X, axis=0))
+    add("flip(m=X,axis=(0,1))", "plain", lambda X, o: np.flip(m=X, axis=(0, 1)))
+    add("roll(shift=,axis=)", "plain", lambda X, o: np.roll(X, shift=1, axis=0))
+    add("roll((1,1),(0,1))", "plain", lambda X, o: np.roll(X, (1, 1), (0, 1)))
+    add("roll(2)", "plain", lambda X, o: np.roll(X, 2))
+    add("rot90", "plain", lambda X, o: np.rot90(X))
+    add("rot90(k=2,axes=(0,1))", "plain", lambda X, o: np.rot90(X, k=2, axes=(0, 1)))
+    add("repeat(repeats=,axis=0)", "plain", lambda X, o: np.repeat(X, repeats=2, axis=0))
+    add("repeat(1,axis=0)", "plain", lambda X, o: np.repeat(X, 1, axis=0))
+    add("repeat([..],0)", "plain", lambda X, o: np.repeat(X, [1] * np.shape(X)[0], 0))
+    add("tile(reps=1)", "plain", lambda X, o: np.tile(X, reps=1))
+    add("take(indices=,axis=0)", "plain", lambda X, o: np.take(X, indices=[0], axis=0))
+    add("take(X,[0],0)", "plain", lambda X, o: np.take(X, [0], 0))
+    add("take(identity,axis=0)", "plain", lambda X, o: np.take(X, list(range(np.shape(X)[0])), axis=0))
+    add("take([0,0,9],axis=0,mode=clip)", "plain", lambda X, o: np.take(X, [0, 0, 9], axis=0, mode="clip"))
+    add("take(ndarray,axis=1)", "plain", lambda X, o: np.take(X, np.array([0, 0]), axis=1))
+    add("x.take([0],axis=0)", "plain", lambda X, o: M(nap, X, "take", [0], axis=0))
+    add("take_along_axis", "plain", lambda X, o: np.take_along_axis(X, np.argsort(np.asarray(X), axis=0), axis=0))
+    add("compress(axis=0)", "plain", lambda X, o: np.compress([True] * np.shape(X)[0], X, axis=0))
+    add("compress(half,axis=0)", "plain", lambda X, o: np.compress([i % 2 == 0 for i in range(np.shape(X)[0])], X, axis=0))
+    add("delete(obj=,axis=)", "plain", lambda X, o: np.delete(X, obj=0, axis=0))
+    add("delete([],axis=0)", "plain", lambda X, o: np.delete(X, [], axis=0))
+    add("delete(0,axis=1)", "plain", lambda X, o: np.delete(X, 0, axis=1))
+    add("insert(obj=,values=,axis=)", "plain", lambda X, o: np.insert(X, obj=0, values=7, axis=0))
+    add("insert(0,7,axis=1)", "plain", lambda X, o: np.insert(X, 0, 7, axis=1))
+    add("append(x,row,axis=0)", "plain", lambda X, o: np.append(X, np.asarray(X)[:1], axis=0))
+    add("pad(time only)", "plain", lambda X, o: np.pad(X, ((1, 1),) + ((0, 0),) * (np.ndim(X) - 1)))
+    add("pad(others only)", "plain", lambda X, o: np.pad(X, ((0, 0),) + ((1, 1),) * (np.ndim(X) - 1)))
+    add("pad(pad_width=,mode=edge)", "plain", lambda X, o: np.pad(X, pad_width=1, mode="edge"))
+    add("pad(0)", "plain", lambda X, o: np.pad(X, 0))
+    add("argsort(axis=0,kind=stable)", "plain", lambda X, o: np.argsort(X, axis=0, kind="stable"))
+    add("argsort(X,-1)", "plain", lambda X, o: np.argsort(X, -1))
+    add("x.argsort()", "plain", lambda X, o: M(nap, X, "argsort"))
+    add("unique(axis=0)", "plain", lambda X, o: np.unique(X, axis=0))
+    add("unique(index,inverse,counts)", "plain", lambda X, o: np.unique(X, return_index=True, return_inverse=True, return_counts=True))
+    add("searchsorted(v=,side=right)", "plain", lambda X, o: np.searchsorted(X, v=[2.5], side="right"))
+    add("digitize(bins=,right=)", "plain", lambda X, o: np.digitize(X, bins=[2.0, 4.0], right=True))
+    add("convolve(v=,mode=full)", "plain", lambda X, o: np.convolve(X, v=[1.0, 1.0], mode="full"))
+    add("convolve(mode=valid)", "plain", lambda X, o: np.convolve(X, [1.0], "valid"))
+    add("correlate(same)", "plain", lambda X, o: np.correlate(X, [1.0, 2.0, 1.0], "same"))
+    add("interp(x=,xp=,fp=X)", "plain", lambda X, o: np.interp(x=[1.5, 2.5], xp=np.arange(np.shape(X)[0]), fp=X))
+    add("interp(X as x)", "plain", lambda X, o: np.interp(X, [0.0, 10.0], [0.0, 1.0]))
+    add("histogram(density)", "plain", lambda X, o: np.histogram(X, bins=3, range=(0, 30), density=True))
+    add("allclose(rtol=,atol=,equal_nan=)", "plain", lambda X, o: np.allclose(X, X, rtol=0, atol=0, equal_nan=True))
+    add("array_equal(equal_nan)", "plain", lambda X, o: np.array_equal(X, X, equal_nan=True))
+    add("stack(axis=1)", "plain", lambda X, o: np.stack([X, X], axis=1))
+    add("stack(arrays=)", "plain", lambda X, o: np.stack(arrays=[X, X]))
+    add("stack((x,raw))", "plain", lambda X, o: np.stack((X, np.asarray(X))))
+    add("column_stack((x,))", "plain", lambda X, o: np.column_stack((X,)))
+    add("einsum(i...->i...)", "plain", lambda X, o: np.einsum("i...->i...", X))
+    add("tensordot(axes=0)", "plain", lambda X, o: np.tensordot(X, [1.0, 2.0], axes=0))
+    add("kron", "plain", lambda X, o: np.kron(X, [1.0, 2.0]))
+    add("cross-free: inner", "plain", lambda X, o: np.inner(X, X))
+    add("triu(k=1)", "plain", lambda X, o: np.triu(X, k=1))
+    add("diagonal(offset=,axis1=,axis2=)", "plain", lambda X, o: np.diagonal(X, offset=0, axis1=0, axis2=1))
+    add("trace(axis1=0,axis2=1)", "plain", lambda X, o: np.trace(X, axis1=0, axis2=1))
+    add("apply_along_axis(sum,1)", "plain", lambda X, o: np.apply_along_axis(np.sum, 1, X))
+    add("apply_along_axis(cumsum,0)", "plain", lambda X, o: np.apply_along_axis(np.cumsum, 0, X))
+    add("apply_over_axes(sum,[1])", "plain", lambda X, o: np.apply_over_axes(np.sum, X, [1]))
+    add("nanmax(axis=1)", "plain", lambda X, o: np.nanmax(X, axis=1))
+    add("nanargmax(axis=1)", "plain", lambda X, o: np.nanargmax(X, axis=1))
+    add("nanstd(axis=1,ddof=1)", "plain", lambda X, o: np.nanstd(X, axis=1, ddof=1))
+    add("nanmedian(axis=1)", "plain", lambda X, o: np.nanmedian(X, axis=1))
+    add("nanquantile(.5,axis=1)", "plain", lambda X, o: np.nanquantile(X, 0.5, axis=1))
+    add("nancumprod(axis=0)", "plain", lambda X, o: np.nancumprod(X, axis=0))
+    add("matmul(x,matrix)", "plain", lambda X, o: np.matmul(X, o), "matvec")
+    add("dot(a=,b=)", "plain", lambda X, o: np.dot(a=X, b=o), "matvec")
+    add("x.dot(o)", "plain", lambda X, o: M(nap, X, "dot", o), "matvec")
+    add("vdot-free: linalg.norm(axis=1)", "plain", lambda X, o: np.linalg.norm(X, axis=1))
+    # conversions through __array__ (np.array / np.asarray are not dispatched: no wrapping decision, the extracted model is not asked)
+    add("array(x)", "plain_nd", lambda X, o: np.array(X))
+    add("asarray(x,dtype=f32)", "plain_nd", lambda X, o: np.asarray(X, dtype=np.float32))
+    add("asarray(x)", "plain_nd", lambda X, o: np.asarray(X))
+    add("array(x,dtype=i64,copy=True)", "plain_nd", lambda X, o: np.array(X, dtype=np.int64, copy=True))
+    add("x.tolist-free: len", "plain", lambda X, o: len(X))
+    add("iscomplexobj", "plain", lambda X, o: np.iscomplexobj(X))
+    add("may_share_memory(x,x)", "plain", lambda X, o: np.may_share_memory(X, X))
+    add("result_type", "plain", lambda X, o: str(np.result_type(X, np.float32)))
+    add("sort(axis=0)", "excluded", lambda X, o: np.sort(X, axis=0))
+    add("sort(a=X)", "excluded", lambda X, o: np.sort(a=X))
+    add("partition(kth=)", "excluded", lambda X, o: np.partition(X, kth=0))
+    add("fft.ifft", "fft", lambda X, o: np.fft.ifft(X))
+    add("fft.fft(a=X)", "fft", lambda X, o: np.fft.fft(a=X))
+    add("fft.fft2", "fft", lambda X, o: np.fft.fft2(X))
+    return T
+
+
+KIND_FUNCS = ["add", "subtract:r", "multiply", "true_divide", "power", "maximum", "greater", "equal", "logical_and", "floor_divide", "fmod",
+              "op+", "opr-", "op*", "op/", "opr/", "op<", "op==", "op**", "op//", "opr+", "op%", "op>="]
+
+
+def table_kinds(nap):
+    """axis 2 / 8: binary ufuncs and operators with the second operand in every argument form of NEW_KINDS"""
+    T = []
+    ops = {"+": lambda X, o: X + o, "r+": lambda X, o: o + X, "r-": lambda X, o: o - X, "*": lambda X, o: X * o, "/": lambda X, o: X / o, "r/": lambda X, o: o / X,
+           "//": lambda X, o: X // o, "**": lambda X, o: X ** o, "%": lambda X, o: X % o, "<": lambda X, o: X < o, ">=": lambda X, o: X >= o, "==": lambda X, o: X == o}
+    for kind in NEW_KINDS:
+        for fn in KIND_FUNCS:
+            if fn.startswith("op"):
+                T.append((fn, "ew", ops[fn[2:]], kind, float))
+            elif fn.endswith(":r"):
+                T.append((fn, "ew", (lambda X, o, u=fn[:-2]: getattr(np, u)(o, X)), kind, float))
+            else:
+                T.append((fn, "ew", (lambda X, o, u=fn: getattr(np, u)(X, o)), kind, float))
+    return T
+
+
 SHAPES = list(dict.fromkeys([(n,) for n in (0, 1, 2, 5)] + [(n, 3) for n in (0, 1, 2, 5)] + [(n, n) for n in (0, 1, 2, 5)] + [(n, 1) for n in (1, 2)]
                            + [(n, 3, 2) for n in (0, 1, 2, 5)] + [(n, n, 2) for n in (1, 2)] + [(2, 3, 2, 2), (2, 2, 2)]))
 
-KINDNUM = {"plain": 0, "ew": 0, "ew_multi": 0, "excluded": 1, "fft": 2}
+KINDNUM = {"plain": 0, "plain_nd": 0, "ew": 0, "ew_multi": 0, "excluded": 1, "fft": 2}
 
 
 def viol(res, key, what, inp, impl=None, expected=None):
     res.violations.append({"key": key, "what": what, "input": inp, "impl": impl, "expected": expected})
+
+
+class Snap:
+    """what x IS when the call is made (taken once, before any call: a live object that is used several times is always judged against this)"""
+
+    def __init__(self, nap, x):
+        self.t, self.sup, self.cols = ticks_of(x), sup_of(x), cols_of(nap, x)
+        self.v = np.array(x.values, copy=True)
+        self.shape, self.cls, self.frame = tuple(self.v.shape), type(x), isinstance(x, nap.TsdFrame)
+        self.line = ts6(nap, x)
+
+
+def operand_for(operand, shape, dtype, x=None):
+    if operand == "matvec":
+        return np.arange(shape[-1] * 2).reshape(shape[-1], 2).astype(dtype) + 1 if len(shape) >= 2 else np.arange(shape[0]).astype(dtype) + 1
+    return others(shape, dtype, x).get(operand)
+
+
+def wrap_emit(nap, res, cases, lines, entry, shape, x, sn, variant=None, group="wrap"):
+    """run one table entry on the raw array (NumPy's answer) and on the time series x; queue the model line"""
+    name, tag, f, operand, dtype = entry
+    dtype = sn.v.dtype.type if variant is not None else dtype
+    o = None
+    if operand is not None:
+        o = operand_for(operand, shape, dtype, x)
+        if o is None:
+            return
+    if sn.v.dtype.kind == "b" and "**" in name and (o is None or type(o) is int):
+        # NumPy's own operator and NumPy's own ufunc differ here (ndarray.__pow__(bool, 2) takes the np.square fast path -> int8, np.power(bool, 2) -> int64):
+        # the statement equates operator and ufunc, so it does not determine the dtype of this one form; not generated
+        res.count("not_generated:bool**int")
+        return
+    exp = call(f, np.array(sn.v, copy=True), o)
+    got = call(f, x, o)
+    inp = {"function": name, "operand": operand, "shape": list(shape), "dtype": np.dtype(dtype).name}
+    if variant is not None:
+        inp["variant"] = variant
+    ckey = (group, name, operand, shape) if variant is None else (group, name, operand, shape, str(variant))
+    res.count("wrap:" + tag)
+    if exp[0] == "exc":
+        # NumPy itself rejects the call on the raw array (axis out of range, ...): the wrapper must not invent a result
+        res.case(ckey, nontrivial=False)
+        res.count("numpy_rejects")
+        if got[0] == "ok":
+            viol(res, {"op": "array_function", "part": "numpy_rejects_but_wrapper_returns"}, "NumPy raises on the raw array but the call on the time series returns", inp,
+                 impl=type(got[1]).__name__, expected=exp[1])
+        return
+    e = exp[1]
+    nontriv = isinstance(e, np.ndarray) and e.ndim >= 1 and shape[0] >= 1
+    res.case(ckey, nontrivial=nontriv)
+    cases.append((inp, tag, sn, e, got))
+    if tag == "plain_nd":
+        lines.append(None)
+    elif tag == "ew_multi":
+        lines.append("ufunc_multi\t1\t1\t%s\t%d\t%s" % (sn.line, len(e), "\t".join(npres_arg(q) for q in e)))
+    else:
+        lines.append("func\t%d\t%s\t%s" % (KINDNUM[tag], sn.line, npres_arg(e)))
 
 
 def run_wrap(nap, res, tier):
@@ -367,57 +981,38 @@ def run_wrap(nap, res, tier):
     T = table(nap)
     cases, lines = [], []
     for shape in SHAPES:
-        for (name, tag, f, operand, dtype) in T:
-            x = mk(nap, shape, dtype=dtype)
-            o = None
-            if operand == "matvec":
-                o = np.arange(shape[-1] * 2).reshape(shape[-1], 2).astype(dtype) + 1 if len(shape) >= 2 else np.arange(shape[0]).astype(dtype) + 1
-            elif operand is not None:
-                o = others(shape, dtype).get(operand)
-                if o is None:
-                    continue
-            xv = np.array(x.values, copy=True)
-            exp = call(f, xv, o)
-            got = call(f, x, o)
-            inp = {"function": name, "operand": operand, "shape": list(shape), "dtype": np.dtype(dtype).name}
-            res.count("wrap:" + tag)
-            if exp[0] == "exc":
-                # NumPy itself rejects the call on the raw array (axis out of range, ...): the wrapper must not invent a result
-                res.case(("wrap", name, operand, shape), nontrivial=False)
-                res.count("numpy_rejects")
-                if got[0] == "ok":
-                    viol(res, {"op": "array_function", "part": "numpy_rejects_but_wrapper_returns"}, "NumPy raises on the raw array but the call on the time series returns", inp,
-                         impl=type(got[1]).__name__, expected=exp[1])
-                continue
-            e = exp[1]
-            nontriv = isinstance(e, np.ndarray) and e.ndim >= 1 and shape[0] >= 1
-            res.case(("wrap", name, operand, shape), nontrivial=nontriv)
-            cases.append((inp, tag, x, e, got))
-            if tag == "ew_multi":
-                lines.append("ufunc_multi\t1\t1\t%s\t%d\t%s" % (ts6(nap, x), len(e), "\t".join(npres_arg(q) for q in e)))
-            else:
-                lines.append("func\t%d\t%s\t%s" % (KINDNUM[tag], ts6(nap, x), npres_arg(e)))
-    out = C.run_model(lines, driver="driver_c14")
-    for (inp, tag, x, e, got), mo in zip(cases, out):
-        m = parse_out(mo.split(" ; ")[0]) if tag == "ew_multi" else parse_out(mo)
-        res.count("verdict:" + m["kind"])
+        for entry in T:
+            x = mk(nap, shape, dtype=entry[4])
+            wrap_emit(nap, res, cases, lines, entry, shape, x, Snap(nap, x))
+    wrap_judge(nap, res, cases, lines)
+
+
+def wrap_judge(nap, res, cases, lines):
+    mit = iter(C.run_model([l for l in lines if l is not None], driver="driver_c14"))
+    for (inp, tag, x, e, got), l in zip(cases, lines):          # x: the Snap of the operand
+        mo = next(mit) if l is not None else None
         n = x.shape[0]
-        # ---- correspondence: extracted model vs implementation
-        size = int(np.prod(e.shape)) if isinstance(e, np.ndarray) else 0
-        if tag == "ew_multi":
-            ms = [parse_out(q) for q in mo.split(" ; ")]
-            if got[0] != "ok" or not isinstance(got[1], tuple) or len(got[1]) != len(ms):
-                why = "model: tuple of %d wrapped outputs" % len(ms)
-            else:
-                why = next((w for w in (agree(nap, mq, ("ok", rq), cells_expected=list(range(eq.size))) for mq, rq, eq in zip(ms, got[1], e)) if w is not None), None)
+        if mo is None:
+            res.count("wrap_oracle_only(no model line)")
         else:
-            why = agree(nap, m, got, cells_expected=list(range(size)))
-        if why is not None:
-            res.disagreements.append({"op": "wrap", "input": inp, "model": mo[:200], "impl": got[1] if got[0] == "exc" else type(got[1]).__name__, "why": why})
+            m = parse_out(mo.split(" ; ")[0]) if tag == "ew_multi" else parse_out(mo)
+            res.count("verdict:" + m["kind"])
+            # ---- correspondence: extracted model vs implementation
+            size = int(np.prod(e.shape)) if isinstance(e, np.ndarray) else 0
+            if tag == "ew_multi":
+                ms = [parse_out(q) for q in mo.split(" ; ")]
+                if got[0] != "ok" or not isinstance(got[1], tuple) or len(got[1]) != len(ms):
+                    why = "model: tuple of %d wrapped outputs" % len(ms)
+                else:
+                    why = next((w for w in (agree(nap, mq, ("ok", rq), cells_expected=list(range(eq.size))) for mq, rq, eq in zip(ms, got[1], e)) if w is not None), None)
+            else:
+                why = agree(nap, m, got, cells_expected=list(range(size)))
+            if why is not None:
+                res.disagreements.append({"op": "wrap", "input": inp, "model": mo[:200], "impl": got[1] if got[0] == "exc" else type(got[1]).__name__, "why": why})
         # ---- statement-level oracle on the implementation (independent of the model)
         if tag in ("excluded", "fft"):
             if got != ("exc", "TypeError"):
-                viol(res, {"op": "array_function", "part": "exclusion_list"}, "a function pynapple declares unsupported (sort family / np.fft) did not raise TypeError", inp, impl=str(got[1])[:80])
+                viol(res, {"op": "array_function", "part": "exclusion_list"}, "a function pynapple declares unsupported (sort family / np.fft) did not raise TypeError", inp, impl=short(got[1]))
             continue
         if got[0] == "exc":
             part = "zero_dim_result" if (isinstance(e, np.ndarray) and e.ndim == 0) else "raises"
@@ -429,29 +1024,29 @@ def run_wrap(nap, res, tier):
             viol(res, {"op": "array_function", "part": "values"}, "result differs from the same NumPy call on the raw array", inp, impl=str(raw(nap, r))[:120], expected=str(e)[:120])
             continue
         if is_nap(nap, r):
-            if ticks_of(r) != ticks_of(x) or sup_of(r) != sup_of(x):
+            if ticks_of(r) != x.t or sup_of(r) != x.sup:
                 viol(res, {"op": "array_function", "part": "time_axis"}, "result is a time series but does not carry x's timestamps / time support", inp, impl=[ticks_of(r), sup_of(r)],
-                     expected=[ticks_of(x), sup_of(x)])
+                     expected=[x.t, x.sup])
             if klass(nap, r) != min(r.values.ndim, 3) - 1:
                 viol(res, {"op": "array_function", "part": "class"}, "class of the result does not match its rank", inp, impl=type(r).__name__)
-            if isinstance(r, nap.TsdFrame) and isinstance(x, nap.TsdFrame) and r.shape[1] == x.shape[1] and cols_of(nap, r) != cols_of(nap, x):
-                viol(res, {"op": "array_function", "part": "columns"}, "column count unchanged but the column labels are lost", inp, impl=cols_of(nap, r), expected=cols_of(nap, x))
-        if tag == "ew" and isinstance(e, np.ndarray) and e.shape == x.shape and not (is_nap(nap, r) and type(r) is type(x)):
+            if isinstance(r, nap.TsdFrame) and x.frame and r.shape[1] == x.shape[1] and cols_of(nap, r) != x.cols:
+                viol(res, {"op": "array_function", "part": "columns"}, "column count unchanged but the column labels are lost", inp, impl=cols_of(nap, r), expected=x.cols)
+        if tag == "ew" and isinstance(e, np.ndarray) and e.shape == x.shape and not (is_nap(nap, r) and type(r) is x.cls):
             viol(res, {"op": "ufunc", "part": "elementwise_not_wrapped"}, "element-wise operation did not return a time series of x's class", inp, impl=type(r).__name__)
         if tag == "ew_multi":
             res.count("multi_output_ufunc")
-            if not (isinstance(r, tuple) and all(is_nap(nap, q) and type(q) is type(x) for q, eq in zip(r, e) if eq.shape == x.shape)):
+            if not (isinstance(r, tuple) and all(is_nap(nap, q) and type(q) is x.cls for q, eq in zip(r, e) if eq.shape == x.shape)):
                 viol(res, {"op": "ufunc", "part": "multi_output"}, "element-wise ufunc with two outputs returns raw arrays (time axis dropped)", inp, impl=[type(q).__name__ for q in r])
             else:
                 for q in r:
-                    if is_nap(nap, q) and (ticks_of(q) != ticks_of(x) or sup_of(q) != sup_of(x)
-                                           or (isinstance(x, nap.TsdFrame) and isinstance(q, nap.TsdFrame) and q.shape[1] == x.shape[1] and cols_of(nap, q) != cols_of(nap, x))):
+                    if is_nap(nap, q) and (ticks_of(q) != x.t or sup_of(q) != x.sup
+                                           or (x.frame and isinstance(q, nap.TsdFrame) and q.shape[1] == x.shape[1] and cols_of(nap, q) != x.cols)):
                         viol(res, {"op": "ufunc", "part": "multi_output_time_axis"}, "an output of a multi-output ufunc does not carry x's timestamps / support / labels", inp)
         # observation (NOT a violation: the statement keeps labels whenever the column count is unchanged): frame -> frame, same
         # labels in the same order, but the data columns are a non-trivial permutation of x's
-        if isinstance(x, nap.TsdFrame) and isinstance(r, nap.TsdFrame) and r.shape == x.shape and 2 <= x.shape[1] <= 5 and n >= 1 \
-                and cols_of(nap, r) == cols_of(nap, x) and not np.array_equal(r.values, x.values):
-            xv = np.asarray(x.values)
+        if x.frame and isinstance(r, nap.TsdFrame) and r.shape == x.shape and 2 <= x.shape[1] <= 5 and n >= 1 \
+                and cols_of(nap, r) == x.cols and not np.array_equal(r.values, x.v):
+            xv = x.v
             if any(np.array_equal(np.asarray(r.values), xv[:, list(pm)]) for pm in itertools.permutations(range(x.shape[1]))):
                 res.count("observed:frame_data_columns_permuted_labels_unchanged")
                 res.extra.setdefault("observed_column_permutations", [])
@@ -463,13 +1058,136 @@ def run_wrap(nap, res, tier):
             res.sample({"function": inp["function"], "operand": inp["operand"], "x.shape": list(x.shape), "result.shape": list(e.shape), "returned": type(r).__name__})
 
 
+RANK_GROUPS = [[sh for sh in SHAPES if len(sh) == 1], [sh for sh in SHAPES if len(sh) == 2], [sh for sh in SHAPES if len(sh) >= 3]]
+
+CORE = [("negative", None), ("exp", None), ("isnan", None), ("logical_not", None), ("add", "scalar"), ("add", "array"), ("add", "row"), ("multiply", "col"), ("greater", "scalar"),
+        ("add:r", "array"), ("power", "higher"), ("modf", None), ("divmod", "scalar"), ("opneg", None), ("op+", "scalar"), ("opr-", "array"), ("op<", "scalar"), ("op==", "array"),
+        ("op@", "matvec"), ("sum(axis=None)", None), ("sum(axis=0)", None), ("sum(axis=1)", None), ("mean(axis=-1)", None), ("x.sum(axis=0)", None), ("x.mean(axis=1)", None),
+        ("sum(axis=1,keepdims)", None), ("cumsum(axis=0)", None), ("cumsum(axis=1)", None), ("diff(axis=0)", None), ("reshape(n,-1)", None), ("reshape(-1)", None),
+        ("transpose", None), ("swapaxes(0,-1)", None), ("squeeze", None), ("expand_dims(0)", None), ("expand_dims(-1)", None), ("flip(0)", None), ("roll(1,axis=1)", None),
+        ("fliplr", None), ("take([0],axis=0)", None), ("take(all,axis=0)", None), ("repeat(2,0)", None), ("clip", None), ("x.round()", None), ("copy", None), ("x.copy()", None),
+        ("zeros_like", None), ("where(c,x,0)", None), ("argsort(axis=0)", None), ("stack([x,x],-1)", None), ("shape", None), ("nonzero", None), ("sort", None), ("fft.fft", None),
+        ("x.astype(int)", None), ("nan_to_num", None), ("column_stack", None), ("(x+1)*2-x.values", None), ("sum(X,1)", None), ("x.sum(1)", None),
+        ("clip(a=X,a_min=,a_max=)", None), ("add(dtype=f32)", None), ("median(axis=1,keepdims)", None), ("pad(others only)", None), ("delete(0,axis=1)", None),
+        ("op*", "pyint"), ("op+", "np.float32"), ("multiply", "0d"), ("add", "list"), ("opr-", "self.values"), ("maximum", "nan"), ("sum(axis=(1,))", None)]
+
+
+def receiver_variants(rng):
+    """axes 2, 4, 5, 6, 7, 8 for the RECEIVER x: how it was built (form of t / units / data form), where it lies in time, its support, its labels, its history"""
+    big = 10 ** 5 * SEC
+    V = [{"tform": tf} for tf in TFORMS + ["pandas_ctor"]]
+    V += [{"tform": tf, "step": SEC} for tf in TFORMS_INT if tf != "ms_int"] + [{"tform": "ms_int", "step": 2 * 10 ** 6}]
+    V += [{"tform": "ms", "origin": -big}, {"tform": "us", "origin": big}, {"tform": "ms", "sup": "default"}, {"tform": "us", "sup": "default", "origin": -3 * U},
+          {"tform": "int64", "step": SEC, "origin": -2 * SEC}, {"tform": "int32", "step": SEC, "origin": -big}, {"tform": "ms_int", "step": 2 * 10 ** 6, "origin": -4 * 10 ** 6},
+          {"tform": "pyint_list", "step": SEC, "origin": -SEC, "sup": "default"}, {"tform": "uint64", "step": SEC, "origin": big}, {"tform": "tsindex", "origin": -6 * U}]
+    V += [{"origin": -6 * U}, {"origin": -4 * U}, {"origin": -big}, {"origin": big}, {"origin": -big, "sup": "default"}, {"origin": big, "sup": "many"}, {"origin": -3 * U, "sup": "one"}]
+    V += [{"sup": "one"}, {"sup": "many"}, {"sup": "default"}, {"sup": "many", "origin": -5 * U}]
+    V += [{"dup": "pairs"}, {"dup": "all_equal"}, {"dup": "pairs", "sup": "one", "origin": -2 * U}]
+    V += [{"labels": lb} for lb in LABELS] + [{"labels": "str", "metadata": True}, {"labels": "int_unsorted", "metadata": True}, {"labels": "default", "metadata": True}]
+    V += [{"dform": "list"}, {"dform": "list", "tform": "list"}]
+    V += [{"hist": h} for h in ["slice", "split_piece", "bool_index", "get", "restrict", "arith", "npfunc", "astype", "concat", "saveload", "loc"]]
+    V += [{"hist": "restrict", "labels": "str"}, {"hist": "slice", "origin": -big, "tform": "ms"}, {"hist": "saveload", "labels": "str_unsorted", "origin": -4 * U},
+          {"hist": "get", "origin": -3 * U, "sup": "one"}, {"hist": "loc", "labels": "mixed", "metadata": True}, {"hist": "concat", "labels": "float", "tform": "tsindex"},
+          {"hist": "split_piece", "labels": "int_unsorted", "sup": "many"}]
+    for _ in range(12):                                # option flags combined at random
+        v = {"tform": rng.choice(TFORMS), "origin": rng.choice([0, -big, big, -3 * U, -6 * U]), "sup": rng.choice(["one", "many", "default", None]),
+             "labels": rng.choice(LABELS), "fill": rng.choice(FILLS + [None]), "hist": rng.choice([None, None, "slice", "restrict", "arith", "get"]),
+             "dtype": rng.choice([float, float, np.float32, np.int64, np.uint8, np.int16])}
+        V.append({k: w for k, w in v.items() if w is not None})
+    return V
+
+
+def vname(v):
+    return {k: (np.dtype(w).name if k == "dtype" else w) for k, w in sorted(v.items(), key=lambda kv: kv[0])}
+
+
+def run_wrap_wide(nap, res, tier, seed):
+    """the ARGUMENT-FORM axes of one-operand calls (sampled with the seeded rng in the quick tier, complete products in the thorough tier)"""
+    quick = tier == "quick"
+    rng = random.Random(seed * 1409 + 11)
+    T0, TF, TK = table(nap), table_forms(nap), table_kinds(nap)
+    byname = {(e[0], e[3]): e for e in T0 + TF + TK}
+    core = [byname[k] for k in CORE]
+    cases, lines = [], []
+
+    def shapes_for(k):
+        if not quick:
+            return SHAPES
+        return [rng.choice(g) for g in RANK_GROUPS] + [rng.choice(SHAPES) for _ in range(k)]
+
+    # (a) axis 3: positional / keyword spellings, non-default options, combined flags: one shape of every rank + 3 random ones per entry (thorough: every shape)
+    for entry in TF:
+        for shape in dict.fromkeys(shapes_for(3)):
+            x = mk(nap, shape, dtype=entry[4])
+            res.count("forms:positional_keyword_flags")
+            wrap_emit(nap, res, cases, lines, entry, shape, x, Snap(nap, x), group="wrap_forms")
+    # (b) axis 2 / 8: the second operand in every argument form
+    for entry in TK:
+        for shape in dict.fromkeys(shapes_for(0)):
+            x = mk(nap, shape, dtype=entry[4])
+            res.count("operand_form:" + entry[3])
+            wrap_emit(nap, res, cases, lines, entry, shape, x, Snap(nap, x), group="wrap_kinds")
+    # (c) axis 1: dtype of the data and special values, over the whole table
+    gen = [e for e in T0 + TF if e[4] is float and e[3] != "pyscalar"] + [e for e in TK if e[3] in ("pyint", "pyfloat", "np.float32", "np.int64", "0d_f32", "list", "nan")]
+    plan = [(dt, None) for dt in DTYPES] + [(dt, fl) for dt in (float, np.float32) for fl in FILLS] + [(dt, fl) for dt in DTYPES for fl in ("equal", "zeros")]
+    for dt, fl in plan:
+        k = (80 if fl is None else 50 if np.dtype(dt).kind == "f" else 15) if quick else len(gen)
+        for entry in (rng.sample(gen, k) if k < len(gen) else gen):
+            for shape in ([rng.choice(SHAPES)] if quick else [rng.choice(g) for g in RANK_GROUPS]):
+                v = {"dtype": dt, "fill": fl} if fl else {"dtype": dt}
+                x = build(nap, res, shape, v, dtype=dt)
+                if x is None:
+                    continue
+                res.count("data_dtype:" + np.dtype(dt).name)
+                if fl:
+                    res.count("data_fill:" + fl)
+                wrap_emit(nap, res, cases, lines, entry, shape, x, Snap(nap, x), variant=vname(v), group="wrap_dtype")
+    # (d) the receiver: the SAME live object goes through a batch of calls (core set + random entries of every table), each judged against its state before the first call
+    allT = T0 + TF + TK
+    for v in receiver_variants(rng):
+        for g in RANK_GROUPS:
+            shape = rng.choice(g)
+            if v.get("tform") == "uint8" and shape[0] > 200:
+                continue
+            if v.get("hist") == "loc" and len(shape) != 2:
+                continue
+            dt = v.get("dtype", float)
+            x = build(nap, res, shape, v, dtype=dt)
+            if x is None:
+                continue
+            if tuple(x.shape) != tuple(shape):
+                res.count("receiver_shape_differs_from_plan")
+                shape = tuple(x.shape)
+            sn = Snap(nap, x)
+            for k_ in v:
+                res.count("receiver:%s=%s" % (k_, np.dtype(v[k_]).name if k_ == "dtype" else v[k_]))
+            batch = (core if not quick else rng.sample(core, 20)) + rng.sample(allT, 6 if quick else 60)
+            for entry in batch:
+                wrap_emit(nap, res, cases, lines, entry, shape, x, sn, variant=vname(v), group="wrap_receiver")
+            res.count("live_object_reused_for_a_batch_of_calls")
+    wrap_judge(nap, res, cases, lines)
+
+
 def run_same_class(nap, res):
     """two operands of the same class are refused; methods other than __call__ are refused"""
     lines, cases = [], []
-    for shape in [(2,), (5,), (2, 3), (2, 2), (2, 3, 2)]:
-        x = mk(nap, shape)
-        y = mk(nap, shape, base=100)
+    big = 10 ** 5 * SEC
+    variants = [(None, None), ({"dtype": np.int64}, {"dtype": np.float32}), ({"labels": "str"}, {"labels": "int_unsorted"}), ({"origin": -big, "tform": "ms"}, {"origin": big}),
+                ({"hist": "slice"}, {"hist": "arith"}), ({"fill": "nan"}, {"sup": "many"}), ({"dtype": np.bool_}, {"dtype": np.bool_}), ({"tform": "tsindex"}, {"tform": "tsindex"})]
+    for (vx, vy), shape in itertools.product(variants, [(2,), (5,), (2, 3), (2, 2), (2, 3, 2)]):
+        if (vx or {}).get("dtype") is np.bool_ and len(shape) == 2:
+            # repr() of a TsdFrame holding bool data raises (np.round(bool, 5) inside __repr__), and NumPy formats its "all returned NotImplemented" TypeError with the
+            # operands' repr: the refusal then surfaces as a UFuncTypeError (a TypeError subclass) coming from __repr__ - a defect of __repr__, outside this property
+            res.count("not_generated:same_class_pair_of_bool_frames(repr raises)")
+            continue
+        x = build(nap, res, shape, vx, dtype=(vx or {}).get("dtype", float))
+        y = build(nap, res, shape, vy, base=100, dtype=(vy or {}).get("dtype", float))
+        if x is None or y is None:
+            continue
         e = x.values + y.values
+        shape = shape if not (vx or vy) else shape + (str(vname(vx or {})), str(vname(vy or {})))
+        if vx or vy:
+            res.count("same_class_argument_form_variant")
         for name, f in [("add(x,y)", lambda: np.add(x, y)), ("x+y", lambda: x + y), ("x<y", lambda: x < y), ("x==y", lambda: x == y), ("x@y", lambda: x @ y)]:
             got = call(f)
             res.case(("same_class", name, shape))
@@ -485,40 +1203,54 @@ def run_same_class(nap, res):
         res.count("refusals")
         why = agree(nap, parse_out(mo), got)
         if why is not None:
-            res.disagreements.append({"op": "ufunc_refusal", "input": inp, "model": mo, "impl": str(got[1])[:80], "why": why})
+            res.disagreements.append({"op": "ufunc_refusal", "input": inp, "model": mo, "impl": short(got[1]), "why": why})
         if got != ("exc", "TypeError"):
             viol(res, {"op": "ufunc", "part": "same_class_not_refused"}, "ufunc on two time series of the same class / ufunc method other than __call__ was not refused with TypeError", inp,
-                 impl=str(got[1])[:80])
+                 impl=short(got[1]))
 
 
 def run_mixed(nap, res):
     """operands of two different classes with the same time axis (shapes that broadcast: square or length 1)"""
     pairs = [((1,), (1, 3)), ((2,), (2, 2)), ((5,), (5, 5)), ((1, 2), (1, 3, 2)), ((2, 2), (2, 2, 2)), ((1,), (1, 3, 2)), ((2,), (2, 3, 2))]
     lines, cases = [], []
-    for sa, sb in pairs:
-        for order in (0, 1):
-            for uname, u in [("add", np.add), ("multiply", np.multiply), ("greater", np.greater), ("+", None)]:
-                a = mk(nap, sa)
-                b = mk(nap, sb, base=50)
+    big = 10 ** 5 * SEC
+    # argument forms of the two operands (the plain pair first): dtypes, labels, placement, construction path, support, special values, histories
+    variants = [(None, None), ({"dtype": np.int64}, None), (None, {"dtype": np.float32}), ({"dtype": np.uint8}, {"dtype": np.int16}), ({"labels": "str"}, {"labels": "str"}),
+                ({"labels": "int_unsorted", "metadata": True}, {"labels": "int_unsorted", "metadata": True}), ({"origin": -big}, {"origin": -big}), ({"origin": -3 * U, "sup": "one"}, {"origin": -3 * U, "sup": "one"}),
+                ({"tform": "tsindex"}, {"tform": "ms"}), ({"tform": "list"}, {"tform": "us", "labels": "float"}), ({"sup": "many"}, {"sup": "many"}), ({"fill": "nan"}, {"fill": "pminf"}),
+                ({"hist": "arith"}, {"hist": "npfunc", "labels": "mixed"}), ({"hist": "saveload"}, {"hist": "astype"}), ({"hist": "slice"}, {"hist": "bool_index", "labels": "str_unsorted"})]
+    for (va, vb), (sa, sb), order, (uname, u) in itertools.product(variants, pairs, (0, 1), [("add", np.add), ("multiply", np.multiply), ("greater", np.greater), ("+", None)]):
+        if True:
+            if True:
+                a = build(nap, res, sa, va, dtype=(va or {}).get("dtype", float))
+                b = build(nap, res, sb, vb, base=50, dtype=(vb or {}).get("dtype", float))
+                if a is None or b is None:
+                    continue
+                if (va or vb) and (ticks_of(a) != ticks_of(b) or sup_of(a) != sup_of(b)):
+                    res.count("mixed_class_variant_axes_differ(not generated)")
+                    continue
                 outer, inner = (a, b) if order == 0 else (b, a)
                 f = (lambda p, q: p + q) if u is None else u
                 exp = call(f, np.array(outer.values), np.array(inner.values))
                 got = call(f, outer, inner)
                 inp = {"function": uname, "outer": list(outer.shape), "inner": list(inner.shape)}
+                if va or vb:
+                    inp["variants"] = [vname(va or {}), vname(vb or {})]
+                    res.count("mixed_class_argument_form_variant")
                 res.count("mixed_class")
                 if exp[0] == "exc":
-                    res.case(("mixed", uname, outer.shape, inner.shape), nontrivial=False)
+                    res.case(("mixed", uname, outer.shape, inner.shape, str(inp.get("variants"))), nontrivial=False)
                     if got[0] == "ok":
                         viol(res, {"op": "ufunc", "operand": "other_class", "part": "numpy_rejects_but_wrapper_returns"}, "NumPy rejects the raw operands but the wrapper returns", inp)
                     continue
-                res.case(("mixed", uname, outer.shape, inner.shape))
+                res.case(("mixed", uname, outer.shape, inner.shape, str(inp.get("variants"))))
                 cases.append((inp, outer, inner, exp[1], got))
                 lines.append("mixed\t%s\t%s\t%s" % (ts6(nap, outer), ts6(nap, inner), npres_arg(exp[1])))
     out = C.run_model(lines, driver="driver_c14")
     for (inp, outer, inner, e, got), mo in zip(cases, out):
         why = agree(nap, parse_out(mo), got, cells_expected=list(range(e.size)))
         if why is not None:
-            res.disagreements.append({"op": "mixed", "input": inp, "model": mo[:200], "impl": str(got[1])[:80], "why": why})
+            res.disagreements.append({"op": "mixed", "input": inp, "model": mo[:200], "impl": short(got[1]), "why": why})
         if got[0] == "exc":
             viol(res, {"op": "ufunc", "operand": "other_class", "part": "raises"}, "ufunc on two time series of different classes raises " + got[1], inp)
             continue
@@ -667,8 +1399,9 @@ def support_key(rs, sups):
     return {"part": "support", "how": why, "only_a_microsecond_trimmed_by_an_intermediate_pairwise_union_is_missing": by_fold}
 
 
-def concat_operands(nap, tier):
-    """complete small space of operand lists: class x row shape x lengths x time layout x support layout"""
+def concat_operands(nap, tier, variant=None, pick=None, res=None):
+    """complete small space of operand lists: class x row shape x lengths x time layout x support layout.
+    variant(desc) -> list of per-operand variant dicts of mk (argument forms of the operands); pick(desc) -> keep this operand list?"""
     out = []
     # time axes "equal up to precision": identical except that the last operand's first stamp (or every stamp) is 1 ns / 2 ns later
     NS_T = {"last_first_stamp_1ns": (1, False), "last_first_stamp_2ns": (2, False), "last_all_stamps_1ns": (1, True)}
@@ -710,6 +1443,12 @@ def concat_operands(nap, tier):
                             starts.append(U if i == 0 else 0)
                         else:                            # interleaved: shifted by one half step
                             starts.append(i * U)
+                    desc = {"tail": list(tail), "lens": list(lens), "times": lay, "supports": sl}
+                    if pick is not None and not pick(desc):
+                        continue
+                    vs = variant(desc) if variant is not None else None
+                    if vs is not None:
+                        desc["variant"] = [vname(w) for w in vs] if any(w != vs[0] for w in vs) else vname(vs[0])
                     ops = []
                     for i, n in enumerate(lens):
                         t0 = starts[i]
@@ -727,8 +1466,14 @@ def concat_operands(nap, tier):
                         if lay in NS_T and islast:
                             d, every = NS_T[lay]
                             tk = [t0 + 2 * U * j + (d if (every or j == 0) else 0) for j in range(n)]
-                        ops.append(mk(nap, (n,) + tail, t0=t0, sup=sup, base=1 + 20 * i, cols_base=10 + 10 * i, ticks=tk))
-                    out.append(({"tail": list(tail), "lens": list(lens), "times": lay, "supports": sl}, ops))
+                        vi = vs[i % len(vs)] if vs is not None else None
+                        if vi is None:
+                            ops.append(mk(nap, (n,) + tail, t0=t0, sup=sup, base=1 + 20 * i, cols_base=10 + 10 * i, ticks=tk))
+                        else:
+                            ops.append(build(nap, res, (n,) + tail, vi, t0=t0, sup=sup, base=1 + 20 * i, cols_base=10 + 10 * i, ticks=tk, dtype=vi.get("dtype", float)))
+                    if any(o is None for o in ops):
+                        continue
+                    out.append((desc, ops))
     return out
 
 
@@ -740,39 +1485,88 @@ def concat_family():
            ("concatenate(axis=-ndim)", lambda L: np.concatenate(L, axis=-_nd(L[0])))]
 
 
-def run_concat(nap, res, tier, operand_lists=None, tag="concat"):
-    fam = concat_family()
+def same_outcome(nap, a, b):
+    """two call outcomes ("ok", result) | ("exc", name) are the same: same exception, or same type, values and (for time series) time axis and support"""
+    if a[0] != b[0]:
+        return False
+    if a[0] == "exc":
+        return a[1] == b[1]
+    if is_nap(nap, a[1]) != is_nap(nap, b[1]) or (is_nap(nap, a[1]) and (type(a[1]) is not type(b[1]) or ticks_of(a[1]) != ticks_of(b[1]) or sup_of(a[1]) != sup_of(b[1]))):
+        return False
+    return same_values(raw(nap, a[1]), raw(nap, b[1]))
+
+
+def concat_family_forms():
+    """axis 3 for the concatenate family: the operand list as a tuple, the axis as a NumPy integer / None given positionally or by keyword, `out` given positionally,
+    dtype= / casting= / out= combined.  posaxis: the positional axis is not a Python int (the model takes NumPy's output as given and has no axis parsing: oracle only)"""
+    f32, f64 = np.float32, np.float64
+    P = {"posaxis": True}
+    return [("concatenate(tuple)", lambda L: np.concatenate(tuple(L))), ("concatenate(tuple,axis=1)", lambda L: np.concatenate(tuple(L), axis=1)),
+            ("vstack(tuple)", lambda L: np.vstack(tuple(L))), ("hstack(tuple)", lambda L: np.hstack(tuple(L))), ("dstack(tuple)", lambda L: np.dstack(tuple(L))),
+            ("concatenate(L,np.int64(0))", lambda L: np.concatenate(L, np.int64(0)), dict(P, axis=np.int64(0))),
+            ("concatenate(L,np.int64(1))", lambda L: np.concatenate(L, np.int64(1)), dict(P, axis=np.int64(1))),
+            ("concatenate(L,np.int8(-1))", lambda L: np.concatenate(L, np.int8(-1)), dict(P, axis=np.int8(-1))), ("concatenate(L,None)", lambda L: np.concatenate(L, None), dict(P, axis=None)),
+            ("concatenate(axis=np.int64(0))", lambda L: np.concatenate(L, axis=np.int64(0))), ("concatenate(axis=np.int64(1))", lambda L: np.concatenate(L, axis=np.int64(1))),
+            ("concatenate(L,0,None)", lambda L: np.concatenate(L, 0, None)), ("concatenate(L,1,None)", lambda L: np.concatenate(L, 1, None)),
+            ("concatenate(axis=0,out=None,dtype=f64,casting=same_kind)", lambda L: np.concatenate(L, axis=0, out=None, dtype=f64, casting="same_kind")),
+            ("concatenate(dtype=f32,casting=unsafe)", lambda L: np.concatenate(L, dtype=f32, casting="unsafe")),
+            ("concatenate(axis=1,dtype=f32,casting=same_kind)", lambda L: np.concatenate(L, axis=1, dtype=f32, casting="same_kind")),
+            ("vstack(dtype=f32,casting=same_kind)", lambda L: np.vstack(L, dtype=f32, casting="same_kind")),
+            ("hstack(dtype=f64,casting=unsafe)", lambda L: np.hstack(L, dtype=f64, casting="unsafe"))]
+
+
+def run_concat(nap, res, tier, operand_lists=None, tag="concat", fam=None, all_forms=False):
+    fam = concat_family() if fam is None else fam
     lines, cases = [], []
     for desc, ops in (concat_operands(nap, tier) if operand_lists is None else operand_lists):
-        for fname, f in fam:
+        tl, sl_ = [ticks_of(o) for o in ops], [sup_of(o) for o in ops]          # the operands as they are BEFORE any call (the same live objects go through every call form)
+        for fname, f, *flags in fam:
+            flags = flags[0] if flags else {}
             for rawmix in (None, 0, 1):
                 if rawmix is not None and (fname not in ("concatenate", "hstack", "concatenate(axis=-1)") or len(ops) != 2):
                     continue
-                if operand_lists is not None and fname in ("concatenate(L,0)", "concatenate(L,1)", "concatenate(axis=-1)", "concatenate(axis=-ndim)"):
+                if operand_lists is not None and not all_forms and fname in ("concatenate(L,0)", "concatenate(L,1)", "concatenate(axis=-1)", "concatenate(axis=-ndim)"):
                     continue
                 L = [np.array(o.values) if rawmix == i else o for i, o in enumerate(ops)]
                 V = [np.array(o.values) for o in ops]
                 exp = call(f, V)
                 got = call(f, L)
-                inp = dict(desc, function=fname, raw_operand=rawmix, t=[ticks_of(o) for o in ops], sup=[sup_of(o) for o in ops])
+                inp = dict(desc, function=fname, raw_operand=rawmix, t=tl, sup=sl_)
                 res.count(tag + ":" + fname.split("(")[0])
+                if flags.get("posaxis"):
+                    # what the same call gives with the time axis spelled as the keyword axis=0 (used only to NAME a failure precisely, never to excuse one)
+                    flags = dict(flags, axis0=call(lambda: np.concatenate(L, axis=0)), raw_axis0=call(lambda: np.concatenate(V, axis=0)), keyword=call(lambda: np.concatenate(L, axis=flags["axis"])))
                 if exp[0] == "exc":
                     res.case((tag, fname, str(desc), rawmix), nontrivial=False)
                     res.count("numpy_rejects")
-                    if got[0] == "ok":
+                    if got[0] == "ok" and flags.get("posaxis") and flags["raw_axis0"][0] == "ok" and same_outcome(nap, got, flags["axis0"]) and not same_outcome(nap, got, flags["keyword"]):
+                        viol(res, {"op": "concatenate_family", "part": "positional_axis_ignored", "treated_as_axis_0": True, "axis_is_None": "None" in fname, "how": "numpy_rejects_this_axis"},
+                             "np.concatenate(L, axis) with the axis given POSITIONALLY as a NumPy integer: NumPy rejects this axis for these operands, the call behaves as np.concatenate(L, axis=0)",
+                             inp, impl=type(got[1]).__name__, expected=exp[1])
+                    elif got[0] == "ok":
                         viol(res, {"op": "concatenate_family", "part": "numpy_rejects_but_wrapper_returns"}, "NumPy rejects the raw operands but the wrapper returns", inp)
                     continue
                 e = exp[1]
                 ndim = ops[0].values.ndim
                 along_time = e.ndim == ndim and all(e.shape[1:] == o.values.shape[1:] for o in ops) and e.shape[0] == sum(o.shape[0] for o in ops)
                 res.case((tag, fname, str(desc), rawmix), nontrivial=along_time and len(ops) > 1)
-                cases.append((inp, ops, L, e, got, along_time, rawmix))
-                lines.append("concat\t%d\t%s\t%s\t%s" % (len(L), "\t".join(ts6(nap, o) for o in L), C.fmt_ints(e.shape), C.fmt_ints(e.ravel())))
-    out = C.run_model(lines, driver="driver_c14")
-    for (inp, ops, L, e, got, along_time, rawmix), mo in zip(cases, out):
-        m = parse_out(mo)
-        res.count("concat_verdict:" + m["kind"] + (":" + m.get("err", "") if m["kind"] == "ERR" else ""))
-        why = agree(nap, m, got, cells_expected=[int(v) for v in e.ravel()])
+                cases.append((inp, ops, L, e, got, along_time, rawmix, flags))
+                finite = e.dtype.kind in "iub" or bool(np.all(np.isfinite(e)))
+                lines.append(None if flags.get("posaxis") else
+                             "concat\t%d\t%s\t%s\t%s" % (len(L), "\t".join(ts6(nap, o) for o in L), C.fmt_ints(e.shape), C.fmt_ints(int_cells(e) if finite else [0] * e.size)))
+    mit = iter(C.run_model([l for l in lines if l is not None], driver="driver_c14"))
+    for (inp, ops, L, e, got, along_time, rawmix, flags), l in zip(cases, lines):
+        tl, sl_ = inp["t"], inp["sup"]
+        if l is None:
+            res.count("concat_oracle_only(no model line)")
+            why = None
+        else:
+            mo = next(mit)
+            m = parse_out(mo)
+            res.count("concat_verdict:" + m["kind"] + (":" + m.get("err", "") if m["kind"] == "ERR" else ""))
+            # cells: the model concatenates the operands' cells; with non-finite data (no integer image) only class / time axis / support / shape / labels are compared
+            finite = e.dtype.kind in "iub" or bool(np.all(np.isfinite(e)))
+            why = agree(nap, m, got, cells_expected=int_cells(e) if finite else None)
         if why is not None and not along_time and ns_boundary([o for o in L if is_nap(nap, o)]):
             # _check_time_equals is np.allclose(.., rtol=0, atol=1e-9) on float seconds; the model's `close` is |a - b| <= 1 tick. For two values exactly
             # 1 ns apart the float comparison |a - b| <= 1e-9 is decided by rounding (1e-9 - 0.0 passes, 1.000000001 - 1.0 does not): not a disagreement
@@ -787,6 +1581,16 @@ def run_concat(nap, res, tier, operand_lists=None, tag="concat"):
         no_row = sum(o.shape[0] for o in ops[1:]) == 0
         rank = e.ndim != ops[0].values.ndim
         fam_key = {"op": "concatenate_family"}
+        if flags.get("posaxis") and not same_outcome(nap, ("ok", e), flags["raw_axis0"]) and same_outcome(nap, got, flags["axis0"]) and not same_outcome(nap, got, flags["keyword"]):
+            # NumPy's answer for this axis differs from its answer for axis=0, the call on the time series behaves EXACTLY like the same call with axis=0 and NOT like
+            # the same call with this axis spelled as a keyword: the positional axis was not honoured (np.concatenate(L, np.int64(1)), np.concatenate(L, None)).
+            # Any other outcome keeps the generic keys below.
+            if not (got[0] == "ok" and same_values(raw(nap, got[1]), e)):
+                viol(res, dict(fam_key, part="positional_axis_ignored", treated_as_axis_0=True, axis_is_None="None" in inp["function"], how="raises" if got[0] == "exc" else "values"),
+                     "np.concatenate(L, axis) with the axis given POSITIONALLY as a NumPy integer / None: the call behaves as np.concatenate(L, axis=0) "
+                     "(result %s instead of NumPy's %s)" % (got[1] if got[0] == "exc" else np.shape(raw(nap, got[1])), e.shape), inp,
+                     impl=got[1] if got[0] == "exc" else list(np.shape(raw(nap, got[1]))), expected=list(e.shape))
+                continue
         if rawmix is not None:
             # a raw operand has no timestamps: only the numbers are specified
             if got[0] == "exc":
@@ -795,8 +1599,8 @@ def run_concat(nap, res, tier, operand_lists=None, tag="concat"):
             elif not same_values(raw(nap, got[1]), e):
                 viol(res, dict(fam_key, part="raw_operand", how="values", no_later_operand_adds_a_row=no_row), "concatenation with a raw array operand does not give NumPy's values", inp)
             continue
-        tcat = [t for o in ops for t in ticks_of(o)]
-        sups = [sup_of(o) for o in ops]
+        tcat = [t for tt in tl for t in tt]
+        sups = sl_
         if along_time:
             if strictly_inc(tcat):
                 if got[0] == "exc":
@@ -839,10 +1643,10 @@ def run_concat(nap, res, tier, operand_lists=None, tag="concat"):
                 reshaped = rank and rv.dtype == e.dtype and rv.size == e.size and same_values(rv.ravel(), e.ravel())
                 viol(res, dict(fam_key, part="result_rank_changes" if reshaped else "values_other_axis", how="same_cells_other_shape" if reshaped else "values", rank_changes=rank),
                      "result differs from NumPy's on the raw arrays (shape %s instead of %s)" % (rv.shape, e.shape), inp)
-            elif is_nap(nap, r) and any(is_nap(nap, o) and (ticks_of(r) != ticks_of(o) or sup_of(r) != sup_of(o)) for o in ops):
-                dt = max([abs(a - b) for o in ops if len(ticks_of(o)) == len(ticks_of(r)) for a, b in zip(ticks_of(o), ticks_of(r))] + [0])
-                ds = max([abs(a - b) for o in ops if len(sup_of(o)) == len(sup_of(r)) for iv, jv in zip(sup_of(o), sup_of(r)) for a, b in zip(iv, jv)] + [0])
-                lens = any(len(ticks_of(o)) != len(ticks_of(r)) or len(sup_of(o)) != len(sup_of(r)) for o in ops)
+            elif is_nap(nap, r) and any(ticks_of(r) != to or sup_of(r) != so for to, so in zip(tl, sl_)):
+                dt = max([abs(a - b) for to in tl if len(to) == len(ticks_of(r)) for a, b in zip(to, ticks_of(r))] + [0])
+                ds = max([abs(a - b) for so in sl_ if len(so) == len(sup_of(r)) for iv, jv in zip(so, sup_of(r)) for a, b in zip(iv, jv)] + [0])
+                lens = any(len(to) != len(ticks_of(r)) or len(so) != len(sup_of(r)) for to, so in zip(tl, sl_))
                 if not lens and max(dt, ds) <= 1:
                     # operands one tick (1 ns = the library's time_index_precision) apart are, by the library's documented design, "equal up to
                     # pynapple precision": the result carries the FIRST operand's time axis.  The statement fixes "x's timestamps" for one operand x and says
@@ -854,6 +1658,117 @@ def run_concat(nap, res, tier, operand_lists=None, tag="concat"):
                      "time series result does not carry the timestamps / support of every time-series operand", inp, impl=[ticks_of(r), sup_of(r)])
         if len(res.samples) < 5 and along_time and len(ops) == 2 and got[0] == "ok" and is_nap(nap, got[1]) and ops[0].shape[0] and ops[1].shape[0]:
             res.sample({"concat": inp["function"], "t": inp["t"], "sup": inp["sup"], "result_t": ticks_of(got[1]), "result_sup": sup_of(got[1])})
+
+
+def concat_variant_pool(rng):
+    """per-operand argument forms for the concatenate family (axes 1, 2, 4, 5, 6, 7): each entry is a list of variant dicts, operand i takes entry[i % len]"""
+    big = 10 ** 5 * SEC
+    pool = [[{"dtype": dt}] for dt in DTYPES]
+    pool += [[{"dtype": a}, {"dtype": b}] for a, b in [(np.int64, float), (np.float32, float), (np.uint8, np.int16), (np.bool_, np.int8), (np.uint64, np.int64), (float, np.int32)]]
+    pool += [[{"fill": f}] for f in FILLS] + [[{"fill": "nan"}, {"fill": "pminf", "dtype": np.float32}]]
+    pool += [[{"origin": o}] for o in (-big, big, -3 * U, -7 * U)] + [[{"origin": -big, "tform": "ms"}], [{"origin": big, "tform": "us", "sup": "many"}]]
+    pool += [[{"tform": tf}] for tf in TFORMS] + [[{"tform": "tsindex"}, {"tform": "list"}, {"tform": "ms"}]]
+    pool += [[{"sup": "many"}], [{"sup": "default"}], [{"sup": "many"}, {"sup": "default"}], [{"sup": "default", "origin": -5 * U, "tform": "us"}]]
+    pool += [[{"labels": lb}] for lb in LABELS] + [[{"labels": "str"}, {"labels": "int_unsorted"}], [{"labels": "str", "metadata": True}], [{"labels": "default"}, {"labels": "str"}]]
+    pool += [[{"dform": "list"}], [{"hist": "arith"}], [{"hist": "npfunc"}, {"hist": "saveload"}], [{"hist": "astype", "dtype": np.int32}]]
+    pool += [[{"dup": "pairs"}], [{"dup": "pairs", "origin": -3 * U}, {}], [{"dup": "all_equal"}]]      # duplicated timestamps inside an operand: never strictly increasing
+    for _ in range(10):
+        v = {"tform": rng.choice(TFORMS), "origin": rng.choice([0, -big, big, -3 * U]), "sup": rng.choice(["many", "default", None]), "labels": rng.choice(LABELS),
+             "fill": rng.choice(FILLS + [None]), "dtype": rng.choice([float, np.float32, np.int64, np.uint8])}
+        pool.append([{k: w for k, w in v.items() if w is not None}])
+    return pool
+
+
+def concat_history_lists(nap, res):
+    """axis 8: operand lists that come out of earlier operations on ONE parent (slices / split pieces / restrictions / arithmetic results share its memory and
+    its support object), the same live object given twice, a concatenation fed into the next one"""
+    out = []
+    for tail in [(), (3,), (2, 2)]:
+        for v in [None, {"labels": "str"}, {"origin": -5 * U, "sup": "one"}, {"dtype": np.int16, "sup": "many"}, {"tform": "ms", "origin": -10 ** 5 * SEC, "labels": "int_unsorted"}]:
+            p = build(nap, res, (6,) + tail, v, dtype=(v or {}).get("dtype", float))
+            if p is None:
+                continue
+            t = ticks_of(p)
+            ep1 = nap.IntervalSet(G.arr([t[0] - U // 2]), G.arr([t[2] + U // 2]))
+            ep2 = nap.IntervalSet(G.arr([t[3] - U // 2]), G.arr([t[5] + U // 2]))
+            lists = {"slices_of_one_parent": lambda: [p[:2], p[2:5], p[5:]], "overlapping_slices": lambda: [p[:3], p[2:]], "same_object_twice": lambda: [p, p],
+                     "same_object_three_times": lambda: [p, p, p], "split_pieces": lambda: list(np.split(p, 3)), "array_split_pieces": lambda: list(np.array_split(p, 4)),
+                     "restricted_halves": lambda: [p.restrict(ep1), p.restrict(ep2)], "arithmetic_results": lambda: [p[:3] * 2, p[3:] + 1], "pieces_reversed": lambda: [p[3:], p[:3]],
+                     "slice_and_empty_slice": lambda: [p[:6], p[6:]], "get_pieces": lambda: [p.get(t[0] / 1e9, t[1] / 1e9), p.get(t[2] / 1e9, t[5] / 1e9)],
+                     "concatenation_fed_again": lambda: [np.concatenate([p[:2], p[2:4]]), p[4:]], "one_slice": lambda: [p[1:4]], "copy_and_original": lambda: [np.copy(p), p]}
+            if len(tail) == 1:
+                lists["column_blocks_of_one_frame"] = lambda: [p[:, [0]], p[:, [1, 2]]]
+                lists["loc_blocks_of_one_frame"] = lambda: [p.loc[[list(p.columns)[2], list(p.columns)[0]]], p.loc[list(p.columns)[1:]]]
+            for hname, mkops in lists.items():
+                try:
+                    ops = mkops()
+                    assert all(is_nap(nap, o) for o in ops), "a history step returned a raw array"
+                except Exception as ex:  # noqa: BLE001   the history steps are this property's operations (split / concatenate / arithmetic / copy) and slicing
+                    viol(res, {"op": "concatenate_family", "part": "raises", "how": "building_history_operands", "history": hname},
+                         "a step of the history that builds the operand list raises / returns a raw array: " + type(ex).__name__, {"tail": list(tail), "history": hname, "variant": vname(v or {})}, impl=str(ex)[:80])
+                    continue
+                out.append(({"tail": list(tail), "lens": [o.shape[0] for o in ops], "times": "history:" + hname, "supports": "parent", "variant": vname(v or {})}, ops))
+    return out
+
+
+def concat_int_time_lists(nap):
+    """axis 2: operands built from integer-dtype time arrays (signed, unsigned, Python ints, integer milliseconds), on a whole-second lattice"""
+    out = []
+    for tf in TFORMS_INT:
+        step = SEC if tf != "ms_int" else 2 * 10 ** 6
+        for tail in [(), (2,)]:
+            for org in ([0] if tf.startswith("u") else [0, -20 * step]):
+                for lay, starts in [("sequential", [1, 4, 9]), ("touching", [1, 2, 4]), ("reversed", [9, 4, 1])]:
+                    ops = [mk(nap, (n,) + tail, t0=st * step, sup=[(st * step - step // 2, (st + max(n, 1)) * step - step // 2)], base=1 + 20 * i, cols_base=10 + 10 * i,
+                              v={"tform": tf, "step": step, "origin": org}) for i, (n, st) in enumerate(zip((2, 3, 1), starts))][:3 if lay != "touching" else 2]
+                    out.append(({"tail": list(tail), "lens": [o.shape[0] for o in ops], "times": lay + "(whole %s)" % ("seconds" if step == SEC else "2 ms"), "supports": "own",
+                                 "variant": {"tform": tf, "origin": org}}, ops))
+    return out
+
+
+def run_concat_out(nap, res):
+    """axis 3: np.concatenate(arrays, axis, out) with `out` given POSITIONALLY / by keyword: the returned numbers are NumPy's and the buffer receives them"""
+    for tail in [(), (2,)]:
+        for how in ("positional", "keyword"):
+            a = mk(nap, (2,) + tail, t0=0, sup=[(-U, 20 * U)])
+            b = mk(nap, (3,) + tail, t0=6 * U, sup=[(-U, 20 * U)], base=30)
+            e = np.concatenate([a.values, b.values])
+            buf = np.full(e.shape, -1.0)
+            got = call(lambda: np.concatenate([a, b], 0, buf) if how == "positional" else np.concatenate([a, b], axis=0, out=buf))
+            res.case(("concat_out", tail, how))
+            res.count("concat:out_buffer_" + how)
+            inp = {"function": "concatenate([a, b], 0, out)" if how == "positional" else "concatenate([a, b], axis=0, out=out)", "tail": list(tail)}
+            if got[0] == "exc" or not same_values(raw(nap, got[1]), e):
+                viol(res, {"op": "concatenate_family", "part": "raises" if got[0] == "exc" else "values", "how": "out_buffer", "out_given": how}, "concatenation with an out buffer does not give NumPy's values", inp)
+            elif not same_values(buf, e):
+                viol(res, {"op": "concatenate_family", "part": "out_buffer_not_filled", "out_given": how},
+                     "NumPy places the result in `out`; the call on time series returns the right numbers but leaves the buffer untouched (the positional arguments after the axis are dropped)", inp,
+                     impl=buf.ravel()[:4].tolist(), expected=e.ravel()[:4].tolist())
+
+
+def run_concat_wide(nap, res, tier, seed):
+    quick = tier == "quick"
+    rng = random.Random(seed * 1423 + 5)
+    # (a) axis 3: new call forms over the complete operand-list space (quick: a seeded quarter of it)
+    run_concat(nap, res, tier, operand_lists=concat_operands(nap, tier, pick=(lambda d: rng.random() < 0.15) if quick else None), tag="concat_forms", fam=concat_family_forms())
+    # (b) argument forms of the OPERANDS: every operand list of the space is rebuilt with a variant drawn from the pool (thorough: three draws)
+    pool = concat_variant_pool(rng)
+
+    def choose(desc):
+        vs = rng.choice(pool)
+        while len(desc["lens"]) == 1 and any("dup" in v for v in vs):
+            vs = rng.choice(pool)       # ONE operand with duplicated timestamps: whether "concatenating" it must fail is not determined by the statement; not generated
+        for v in vs:
+            for k_ in v:
+                res.count("concat_operand:%s=%s" % (k_, np.dtype(v[k_]).name if k_ == "dtype" else v[k_]))
+        return vs
+    for _ in range(1 if quick else 3):
+        run_concat(nap, res, tier, operand_lists=concat_operands(nap, tier, variant=choose, pick=(lambda d: rng.random() < 0.4) if quick else None, res=res), tag="concat_variant")
+    # (c) histories, integer time arrays: every call form (old and new)
+    forms = concat_family_forms()
+    run_concat(nap, res, tier, operand_lists=concat_history_lists(nap, res), tag="concat_history", fam=concat_family() + (forms if not quick else rng.sample(forms, 4)), all_forms=True)
+    run_concat(nap, res, tier, operand_lists=concat_int_time_lists(nap), tag="concat_int_time", fam=concat_family() + (forms if not quick else rng.sample(forms, 4)), all_forms=True)
+    run_concat_out(nap, res)
 
 
 def judge_1us(nap, res, inp, got, ops):
@@ -926,7 +1841,7 @@ def run_concat_1us(nap, res):
     for (inp, got), mo in zip(cases, C.run_model(lines, driver="driver_c14")):
         why = agree(nap, parse_out(mo), got)
         if why is not None:
-            res.disagreements.append({"op": "concat(touching supports)", "input": inp, "model": mo[:200], "impl": str(got[1])[:80], "why": why})
+            res.disagreements.append({"op": "concat(touching supports)", "input": inp, "model": mo[:200], "impl": short(got[1]), "why": why})
 
 
 # ------------------------------------------------------------------------------------------------
@@ -948,7 +1863,31 @@ SPLIT_TIME_FORMS = [
 ]
 
 
+SPLIT_TIME_FORMS_NEW = [
+    ("split(axis=np.int64(0))", lambda a, s: np.split(a, s, axis=np.int64(0)), 0, "0"), ("array_split(a,s,np.int64(0))", lambda a, s: np.array_split(a, s, np.int64(0)), 1, "0"),
+    ("split(a,indices_or_sections=,axis=0)", lambda a, s: np.split(a, indices_or_sections=s, axis=0), 0, "0"),
+    ("array_split(a,indices_or_sections=)", lambda a, s: np.array_split(a, indices_or_sections=s), 1, "default"),
+    ("vsplit(a,indices_or_sections=)", lambda a, s: np.vsplit(a, indices_or_sections=s), 0, "default"),
+    ("split(axis=np.int64(-ndim))", lambda a, s: np.split(a, s, axis=np.int64(-_nd(a))), 0, "-ndim"),
+    ("array_split(ary=,indices_or_sections=,axis=0)", lambda a, s: np.array_split(ary=a, indices_or_sections=s, axis=0), 1, "0", True),
+]
+SPLIT_OTHER_FORMS = [("hsplit", lambda a, s: np.hsplit(a, s)), ("dsplit", lambda a, s: np.dsplit(a, s)), ("split(axis=1)", lambda a, s: np.split(a, s, axis=1)),
+                     ("array_split(axis=1)", lambda a, s: np.array_split(a, s, axis=1)),
+                     ("split(a,s,1)", lambda a, s: np.split(a, s, 1)), ("array_split(a,s,1)", lambda a, s: np.array_split(a, s, 1)),
+                     ("split(axis=-1)", lambda a, s: np.split(a, s, axis=-1)), ("hsplit(ary=,indices_or_sections=)", lambda a, s: np.hsplit(ary=a, indices_or_sections=s))]
+SPLIT_OTHER_FORMS_NEW = [("split(axis=np.int64(1))", lambda a, s: np.split(a, s, axis=np.int64(1))), ("array_split(a,s,np.int64(1))", lambda a, s: np.array_split(a, s, np.int64(1))),
+                         ("hsplit(a,indices_or_sections=)", lambda a, s: np.hsplit(a, indices_or_sections=s)), ("split(axis=2)", lambda a, s: np.split(a, s, axis=2)),
+                         ("dsplit(ary=,indices_or_sections=)", lambda a, s: np.dsplit(ary=a, indices_or_sections=s))]
+
+
+def ios_json(ios):
+    return ios.tolist() if isinstance(ios, np.ndarray) else int(ios) if isinstance(ios, np.integer) else list(ios) if isinstance(ios, tuple) else ios
+
+
 def run_split(nap, res, tier, plan=None, tag="split"):
+    """plan entries: (shape, ioss, oioss[, opt]); ioss = [(kind, indices_or_sections)], kind = 'sections' | 'indices' | '<sections|indices>_<argument form>';
+    opt = {'v': variant of the receiver (mk), 'forms': call forms along time, 'other': call forms along another axis}.  With a variant the SAME live object goes through
+    every call of the entry, and is judged against its state before the first call."""
     lines, cases = [], []
     olines, ocases = [], []
     if plan is None:
@@ -958,54 +1897,73 @@ def run_split(nap, res, tier, plan=None, tag="split"):
             ioss = [("sections", N) for N in range(0, n + 3)] + [("indices", list(ix)) for k in (1, 2) for ix in itertools.combinations_with_replacement(range(0, n + 2), k)]
             ioss += [("indices", [3, 1]), ("indices", [])]
             plan.append((shape, ioss, [1, 2, 3, [1], [1, 2], [0]]))
-    for shape, ioss, oioss in plan:
+    for shape, ioss, oioss, *opt in plan:
+        opt = opt[0] if opt else {}
+        v = opt.get("v")
+        live = None
+        if v is not None:
+            live = build(nap, res, shape, v, dtype=v.get("dtype", float))
+            if live is None:
+                continue
+            shape = tuple(live.shape)
+            lsn = Snap(nap, live)
+            for k_ in v:
+                res.count("split_receiver:%s=%s" % (k_, np.dtype(v[k_]).name if k_ == "dtype" else v[k_]))
         n = shape[0]
-        for fname, func, asplit, axis_form, *kw in SPLIT_TIME_FORMS:
+        for fname, func, asplit, axis_form, *kw in opt.get("forms", SPLIT_TIME_FORMS):
             for kind, ios in ioss:
-                x = mk(nap, shape)
-                xv = np.array(x.values)
-                exp = call(func, xv, ios)
+                x = mk(nap, shape) if live is None else live
+                sn = Snap(nap, x) if live is None else lsn
+                base = kind.split("_")[0]
+                exp = call(func, np.array(sn.v, copy=True), ios)
                 got = call(func, x, ios)
-                inp = {"function": fname, "shape": list(shape), kind: ios, "axis_form": axis_form, "array_by_keyword": bool(kw)}
+                inp = {"function": fname, "shape": list(shape), base: ios_json(ios), "axis_form": axis_form, "array_by_keyword": bool(kw)}
+                if kind != base:
+                    inp["indices_or_sections_form"] = kind
+                    res.count("split_argument_form:" + kind)
+                if v is not None:
+                    inp["variant"] = vname(v)
+                ckey = (tag, fname, shape, kind, str(ios_json(ios)), str(inp.get("variant")))
                 res.count(tag + ":" + fname.split("(")[0] + ("" if axis_form == "default" else "[axis " + axis_form + "]") + ("[ary=]" if kw else ""))
                 if exp[0] == "exc":
-                    res.case((tag, fname, shape, str(ios)), nontrivial=False)
+                    res.case(ckey, nontrivial=False)
                     res.count("numpy_rejects")
                     if got[0] == "ok":
                         viol(res, {"op": fname.split("(")[0], "part": "numpy_rejects_but_wrapper_returns"}, "NumPy rejects the split of the raw array but the wrapper returns", inp)
                     continue
                 e = exp[1]
-                res.case((tag, fname, shape, str(ios)), nontrivial=len(e) > 1 and n > 0)
-                cases.append((inp, x, e, got))
+                res.case(ckey, nontrivial=len(e) > 1 and n > 0)
+                cases.append((inp, sn, e, got))
                 # the model's split_tsd is the `axis == 0` branch of _split_tsd: the default and the explicit 0 reach it; the negative spelling of
-                # the time axis and the keyword spelling of the array are judged by the statement-level oracle only
-                lines.append("split\t%d\t%d\t%s\t%s" % (asplit, 0 if kind == "sections" else 1, str(ios) if kind == "sections" else C.fmt_ints(ios), ts6(nap, x))
-                             if axis_form in ("default", "0") and not kw else None)
+                # the time axis and the keyword spelling of the array are judged by the statement-level oracle only (as are negative indices)
+                jl = ios_json(ios)
+                modelled = axis_form in ("default", "0") and not kw and (base == "sections" or all(int(q) >= 0 for q in jl))
+                lines.append("split\t%d\t%d\t%s\t%s" % (asplit, 0 if base == "sections" else 1, str(int(jl)) if base == "sections" else C.fmt_ints(jl), sn.line) if modelled else None)
         # not along axis 0 of the model: hsplit / dsplit / split(axis=1)
-        for fname, func in [("hsplit", lambda a, s: np.hsplit(a, s)), ("dsplit", lambda a, s: np.dsplit(a, s)), ("split(axis=1)", lambda a, s: np.split(a, s, axis=1)),
-                            ("array_split(axis=1)", lambda a, s: np.array_split(a, s, axis=1)),
-                            ("split(a,s,1)", lambda a, s: np.split(a, s, 1)), ("array_split(a,s,1)", lambda a, s: np.array_split(a, s, 1)),
-                            ("split(axis=-1)", lambda a, s: np.split(a, s, axis=-1)), ("hsplit(ary=,indices_or_sections=)", lambda a, s: np.hsplit(ary=a, indices_or_sections=s))]:
+        for fname, func in opt.get("other", SPLIT_OTHER_FORMS):
             if fname == "split(axis=-1)" and len(shape) == 1:
                 continue                                 # -1 IS the time axis of a Tsd: covered by the "-ndim" forms above
             for ios in oioss:
-                x = mk(nap, shape)
-                xv = np.array(x.values)
-                exp = call(func, xv, ios)
+                x = mk(nap, shape) if live is None else live
+                sn = Snap(nap, x) if live is None else lsn
+                exp = call(func, np.array(sn.v, copy=True), ios)
                 got = call(func, x, ios)
-                inp = {"function": fname, "shape": list(shape), "indices_or_sections": ios}
+                inp = {"function": fname, "shape": list(shape), "indices_or_sections": ios_json(ios)}
+                if v is not None:
+                    inp["variant"] = vname(v)
+                ckey = (tag + "_other", fname, shape, str(ios_json(ios)), type(ios).__name__, str(inp.get("variant")))
                 res.count(tag + ":" + fname.split("(")[0] + "_other_axis")
                 if exp[0] == "exc":
-                    res.case((tag + "_other", fname, shape, str(ios)), nontrivial=False)
+                    res.case(ckey, nontrivial=False)
                     res.count("numpy_rejects")
                     if got[0] == "ok":
                         viol(res, {"op": fname, "part": "numpy_rejects_but_wrapper_returns"}, "NumPy rejects the split of the raw array but the wrapper returns", inp)
                     continue
                 e = exp[1]
-                res.case((tag + "_other", fname, shape, str(ios)), nontrivial=n > 0)
-                ocases.append((inp, x, e, got, fname))
+                res.case(ckey, nontrivial=n > 0)
+                ocases.append((inp, sn, e, got, fname))
                 if fname in ("hsplit", "dsplit"):
-                    olines.append("split_other\t%s\t%d\t%s" % (ts6(nap, x), len(e), "\t".join(C.fmt_ints(p.shape) + "\t" + C.fmt_ints(p.ravel()) for p in e)))
+                    olines.append("split_other\t%s\t%d\t%s" % (sn.line, len(e), "\t".join(C.fmt_ints(p.shape) + "\t" + C.fmt_ints(int_cells(p)) for p in e)))
                 else:
                     olines.append(None)
     mit = iter(C.run_model([l for l in lines if l is not None], driver="driver_c14"))
@@ -1017,14 +1975,14 @@ def run_split(nap, res, tier, plan=None, tag="split"):
         elif mo.startswith("ERR "):
             ok = got == ("exc", ERRMAP.get(mo[4:], "?"))
             if not ok:
-                res.disagreements.append({"op": "split", "input": inp, "model": mo, "impl": str(got[1])[:80]})
+                res.disagreements.append({"op": "split", "input": inp, "model": mo, "impl": short(got[1])})
         else:
             ms = [parse_out(p) for p in mo.split(" ; ")] if mo.strip() else []
             if got[0] != "ok" or len(got[1]) != len(ms):
-                res.disagreements.append({"op": "split", "input": inp, "model": mo[:200], "impl": str(got[1])[:80], "why": "number of pieces / exception"})
+                res.disagreements.append({"op": "split", "input": inp, "model": mo[:200], "impl": short(got[1]), "why": "number of pieces / exception"})
             else:
                 for m, piece, ep in zip(ms, got[1], e):
-                    why = agree(nap, m, ("ok", piece), cells_expected=[int(v) for v in ep.ravel()])
+                    why = agree(nap, m, ("ok", piece), cells_expected=exact_cells(ep) if exact_cells(x.v) is not None else None)
                     if why is not None:
                         res.disagreements.append({"op": "split", "input": inp, "model": mo[:200], "impl": type(piece).__name__, "why": why})
                         break
@@ -1038,7 +1996,7 @@ def run_split(nap, res, tier, plan=None, tag="split"):
                  impl=got[1], expected=[list(p.shape) for p in e])
             continue
         pcs = got[1]
-        tt = ticks_of(x)
+        tt = x.t
         pos = 0
         bad = None
         if len(pcs) != len(e):
@@ -1047,7 +2005,7 @@ def run_split(nap, res, tier, plan=None, tag="split"):
             lens = [p.shape[0] for p in e]
             monotone = sum(lens) == x.shape[0]
             for p, ep in zip(pcs, e):
-                if not is_nap(nap, p) or type(p) is not type(x):
+                if not is_nap(nap, p) or type(p) is not x.cls:
                     bad = "piece is not a time series of x's class"
                     break
                 if not same_values(raw(nap, p), ep):
@@ -1058,10 +2016,10 @@ def run_split(nap, res, tier, plan=None, tag="split"):
                         bad = "piece timestamps are not those of its rows"
                         break
                     pos += ep.shape[0]
-                if ep.shape[0] and sup_of(p) != sup_of(x):
+                if ep.shape[0] and sup_of(p) != x.sup:
                     bad = "piece support differs from x's"
                     break
-                if isinstance(x, nap.TsdFrame) and cols_of(nap, p) != cols_of(nap, x):
+                if x.frame and cols_of(nap, p) != x.cols:
                     bad = "piece column labels differ from x's"
                     break
             if bad is None and monotone and [t for p in pcs for t in ticks_of(p)] != tt:
@@ -1080,10 +2038,10 @@ def run_split(nap, res, tier, plan=None, tag="split"):
         if mo is not None:
             ms = [parse_out(p) for p in mo.split(" ; ")] if mo.strip() else []
             if got[0] != "ok" or len(got[1]) != len(ms):
-                res.disagreements.append({"op": "split_other", "input": inp, "model": mo[:200], "impl": str(got[1])[:80]})
+                res.disagreements.append({"op": "split_other", "input": inp, "model": mo[:200], "impl": short(got[1])})
             else:
                 for m, piece, ep in zip(ms, got[1], e):
-                    why = agree(nap, m, ("ok", piece), cells_expected=[int(v) for v in ep.ravel()])
+                    why = agree(nap, m, ("ok", piece), cells_expected=exact_cells(ep) if exact_cells(x.v) is not None else None)
                     if why is not None:
                         res.disagreements.append({"op": "split_other", "input": inp, "model": mo[:200], "impl": type(piece).__name__, "why": why})
                         break
@@ -1096,11 +2054,49 @@ def run_split(nap, res, tier, plan=None, tag="split"):
             viol(res, {"op": fname, "part": "values"}, "pieces differ from NumPy's", inp)
             continue
         for p in pcs:
-            if is_nap(nap, p) and (ticks_of(p) != ticks_of(x) or sup_of(p) != sup_of(x)):
+            if is_nap(nap, p) and (ticks_of(p) != x.t or sup_of(p) != x.sup):
                 viol(res, {"op": fname, "part": "time_axis"}, "a piece that is a time series does not carry x's timestamps / support", inp)
-        if fname.startswith("hsplit") and x.values.ndim == 1 and x.shape[0] and not all(is_nap(nap, p) for p in pcs):
+        if fname.startswith("hsplit") and len(x.shape) == 1 and x.shape[0] and not all(is_nap(nap, p) for p in pcs):
             viol(res, {"op": "hsplit", "part": "1d_along_time_loses_timestamps"},
                  "np.hsplit of a Tsd splits ALONG TIME (1-d) but returns raw arrays: the timestamps are not partitioned with the data", inp, impl=[type(p).__name__ for p in pcs])
+
+
+def ios_forms(n):
+    """axis 2 / 3 for indices_or_sections: NumPy integer sections, indices as tuple / ndarray (int64, uint8) / negative positions / NumPy integers inside a list"""
+    out = [("sections_np.int64", np.int64(N)) for N in (1, 2, 3, max(n, 1), n + 1)] + [("sections_np.uint8", np.uint8(2))]
+    for ix in ([1], [2], [1, 3], [0, n], [n, n + 1], [], [2, 2]):
+        out += [("indices_tuple", tuple(ix)), ("indices_ndarray", np.array(ix, dtype=np.int64)), ("indices_uint8", np.array(ix, dtype=np.uint8)),
+                ("indices_np.int64_in_list", [np.int64(q) for q in ix])]
+    out += [("indices_negative", [-1]), ("indices_negative", [-2, -1]), ("indices_negative", [1, -1]), ("indices_negative", (-n,)), ("indices_range", range(1, 3))]
+    return out
+
+
+def run_split_wide(nap, res, tier, seed):
+    quick = tier == "quick"
+    rng = random.Random(seed * 1427 + 7)
+    allt, allo = SPLIT_TIME_FORMS + SPLIT_TIME_FORMS_NEW, SPLIT_OTHER_FORMS + SPLIT_OTHER_FORMS_NEW
+    plan = []
+    # (a) axis 3: new call forms x the plain section / index lists; every call form x the new argument forms of indices_or_sections
+    for shape in [(5,), (6, 2), (4, 4), (4, 3, 2), (0, 3), (1,), (6,), (2, 2, 2)]:
+        n = shape[0]
+        plain = [("sections", N) for N in (1, 2, 3, n, n + 1)] + [("indices", ix) for ix in ([1], [1, 3], [0, n], [], [2, 2], [3, 1])]
+        plan.append((shape, plain, [1, 2, [1], [0, 1]], {"forms": SPLIT_TIME_FORMS_NEW, "other": SPLIT_OTHER_FORMS_NEW}))
+        forms = ios_forms(n)
+        plan.append((shape, forms if not quick else rng.sample(forms, 14), [np.int64(2), (1,), np.array([1]), [np.int64(1)], [-1]],
+                     {"forms": allt if not quick else rng.sample(allt, 6), "other": allo if not quick else rng.sample(allo, 5)}))
+    # (b) the receiver in every argument form / placement / support / label / history variant: one shape per variant (thorough: three), the same live object for all its calls
+    shapes = [(5,), (6,), (1,), (0,), (5, 3), (6, 2), (4, 4), (1, 1), (0, 3), (4, 3, 2), (6, 2, 2), (2, 2, 2)]
+    V = receiver_variants(rng) + [{"dtype": dt} for dt in DTYPES] + [{"fill": f} for f in FILLS] + [{"dtype": np.float32, "fill": "pminf"}, {"dtype": np.uint8, "fill": "zeros", "labels": "str"}]
+    for v in V:
+        for _ in range(1 if quick else 3):
+            shape = rng.choice(shapes)
+            if v.get("hist") == "loc" and len(shape) != 2:
+                shape = (5, 3)
+            n = shape[0]
+            ioss = [("sections", N) for N in (1, 2, 3, n)] + [("indices", ix) for ix in ([2], [1, 3], [0, n], [])] + [("sections_np.int64", np.int64(2)), ("indices_tuple", (1, 2)), ("indices_negative", [-1])]
+            plan.append((shape, ioss if not quick else rng.sample(ioss, 5), [2, [1]],
+                         {"v": v, "forms": allt if not quick else rng.sample(allt, 5), "other": allo if not quick else rng.sample(allo, 4)}))
+    run_split(nap, res, tier, plan=plan, tag="split_wide")
 
 
 def run(res, tier, seed):
@@ -1115,18 +2111,39 @@ def run(res, tier, seed):
                 "with a raw operand mixed in; touching supports with a sample 1, 400, 999, 1000, 1001, 2000 ns before the touching point, and three operands where the third bridges the touching point; "
                 "the result support is compared EXACTLY with the union (only C01's trimmed microsecond before a touching point may be missing). "
                 "split family: ALL sections 0..n+2 and all index lists of length <= 2 over 0..n+1 (+ unsorted, empty) for split/array_split/vsplit in every spelling of the time axis "
-                "(default, axis=0, positional 0, axis=-ndim, positional -ndim, ary=/indices_or_sections= keywords), hsplit/dsplit/axis=1/axis=-1. thorough adds seeded random shapes/functions, random concatenations of 2-5 operands and random splits. non-trivial = the NumPy result is an array of rank >= 1 on a non-empty series (a wrapping decision is made) / >= 2 operands or pieces")
+                "(default, axis=0, positional 0, axis=-ndim, positional -ndim, ary=/indices_or_sections= keywords), hsplit/dsplit/axis=1/axis=-1. thorough adds seeded random shapes/functions, random concatenations of 2-5 operands and random splits. non-trivial = the NumPy result is an array of rank >= 1 on a non-empty series (a wrapping decision is made) / >= 2 operands or pieces. "
+                "ARGUMENT-FORM AXES (run_wrap_wide / run_concat_wide / run_split_wide, widened same-class and mixed-class loops; quick = seeded samples random.Random(seed * k + c), thorough = complete products; every case goes through the SAME oracle functions). "
+                "Axis 1 (dtype of the data): the whole table re-run with float32, int64, int32, int16, int8, uint8, uint16, uint32, uint64, bool data, float data holding NaN / +inf / -inf / +inf and -inf side by side, all-equal and all-zero data; concatenation of operands of one and of two different dtypes; splits of every dtype. "
+                "Axis 2 (form of the arguments): the second operand of binary ufuncs / operators as Python int / float / bool, np.float32 / np.int64 / np.uint8 / np.float64 scalars, 0-d arrays, list, tuple, arrays of another dtype, Fortran-ordered and strided arrays, nan / inf / -inf / complex scalars; "
+                "the receiver built from t given as list, tuple, pandas Index / Series, another object's TsIndex, another object's .t, int64 / int32 / uint64 / uint8 arrays, a list of Python ints, integer milliseconds, through the pandas constructors, by keywords, with the data as a nested list; "
+                "indices_or_sections as NumPy integers, tuple, int64 / uint8 ndarray, range, negative positions; concatenation operands as a tuple. "
+                "Axis 3 (positional and keyword, options, combined flags): ~250 extra call forms (axis positionally / as a tuple / as np.int64, the array by keyword, dtype= keepdims= where= initial= ddof= combined, out buffers, order=, casting=, "
+                "three-operand clip / where, mode= / side= / kind= options), np.concatenate with the axis as np.int64 / np.int8 / None positionally and by keyword, out positionally, dtype= with casting=, vstack / hstack with dtype= casting=, split with axis=np.int64 and indices_or_sections= by keyword. "
+                "Axis 4 (time units): receivers and operands built with time_units ms and us (the same instants), with and without an explicit support. "
+                "Axis 5 (time placement): receivers / operand lists / split inputs at negative times, straddling 0, at -1e5 s and +1e5 s; the 1 ns layouts stay where the statement allows them (concatenate along another axis). "
+                "Axis 6 (degenerate): duplicated timestamps, all timestamps equal (explicit support), supports of one interval / many intervals (intervals holding one sample and none) / the default support, empty and one-sample receivers in every variant. "
+                "Axis 7 (classes and labels): every variant for Tsd, TsdFrame and TsdTensor; TsdFrame labels as strings, unsorted strings, unsorted integers not 0..k-1, floats, mixed str/int, defaults; frames carrying metadata; operands with different label kinds. "
+                "Axis 8 (histories): receivers that come out of slice / split / boolean index / get / restrict / arithmetic / a NumPy function / astype / np.concatenate / save+load / loc; ONE live object reused for a batch of calls and for all call forms of an operand list, "
+                "always judged against its state before the first call (Snap); operands that share memory with x (x.values, x.values[::-1], x.values.T); operand lists made of slices / split pieces / restrictions / arithmetic results of one parent, the same object twice or three times, "
+                "a concatenation fed into the next one. Not generated (the statement does not determine the outcome): bool ** Python int (NumPy's own operator and ufunc disagree on the dtype), a single operand with duplicated timestamps, pandas Series operands, ndarray-method spellings NumPy's functions do not have (x.flatten(), x.reshape(a, b))")
     res.exhaustive = True
     run_wrap(nap, res, tier)
+    run_wrap_wide(nap, res, tier, seed)
     run_same_class(nap, res)
     run_mixed(nap, res)
     run_inplace(nap, res)
     run_concat(nap, res, tier)
+    run_concat_wide(nap, res, tier, seed)
     run_concat_1us(nap, res)
     run_stack_keyword(nap, res)
     run_split(nap, res, tier)
+    run_split_wide(nap, res, tier, seed)
     if tier != "quick":
         run_random(nap, res, seed)
+    if _TMP[0] is not None:                          # the files of the save + load histories
+        import shutil
+        shutil.rmtree(_TMP[0], ignore_errors=True)
+        _TMP[0] = None
 
 
 def run_random(nap, res, seed):
@@ -1203,25 +2220,44 @@ def search(res, seed):
 
 
 def replay(payload):
+    import os
     nap = _nap()
     warnings.simplefilter("ignore")
     v = payload.get("violation") or (payload.get("disagreements") or [{}])[0]
     inp = v.get("input", {})
     print("replay input:", inp)
-    if "function" in inp and "shape" in inp and "t" not in inp:
-        for (name, tag, f, operand, dtype) in table(nap):
+    if "function" in inp and "shape" in inp and "t" not in inp and "axis_form" not in inp and "indices_or_sections" not in inp:
+        var = inp.get("variant")
+        if var is not None:
+            var = {k: (np.dtype(w).type if k == "dtype" else w) for k, w in var.items()}
+        for (name, tag, f, operand, dtype) in table(nap) + table_forms(nap) + table_kinds(nap):
             if name == inp["function"] and operand == inp.get("operand"):
                 shape = tuple(inp["shape"])
-                x = mk(nap, shape, dtype=dtype)
-                o = others(shape, dtype).get(operand) if operand not in (None, "matvec") else None
-                exp = call(f, np.array(x.values), o)
+                dtype = np.dtype(inp["dtype"]).type if var is not None and "dtype" in inp else dtype
+                x = mk(nap, shape, dtype=dtype, v=var)
+                sn = Snap(nap, x)
+                o = operand_for(operand, shape, dtype, x) if operand is not None else None
+                exp = call(f, np.array(sn.v, copy=True), o)
                 got = call(f, x, o)
                 print("numpy on raw array:", exp[0], (exp[1].shape if isinstance(exp[1], np.ndarray) else exp[1]))
                 print("on time series    :", got[0], (type(got[1]).__name__ if got[0] == "ok" else got[1]))
-                ok = got[0] == "ok" and exp[0] == "ok" and same_values(raw(nap, got[1]), exp[1])
+                ok = got[0] == "ok" and exp[0] == "ok" and same_values(raw(nap, got[1]), exp[1]) and (not is_nap(nap, got[1]) or (ticks_of(got[1]) == sn.t and sup_of(got[1]) == sn.sup))
                 return 0 if ok else 1
+    if "t" in inp and "tail" in inp and "variant" not in inp and str(inp.get("times", "")).split(":")[0] != "history":
+        fam = dict((e[0], e[1]) for e in concat_family() + concat_family_forms())
+        if inp.get("function") in fam and inp.get("raw_operand") is None:
+            ops = [mk(nap, (len(t),) + tuple(inp["tail"]), sup=[tuple(iv) for iv in sp], ticks=list(t), base=1 + 20 * i, cols_base=10 + 10 * i) for i, (t, sp) in enumerate(zip(inp["t"], inp["sup"]))]
+            exp = call(fam[inp["function"]], [np.array(o.values) for o in ops])
+            got = call(fam[inp["function"]], ops)
+            print("numpy on raw arrays:", exp[0], (exp[1].shape if isinstance(exp[1], np.ndarray) else exp[1]))
+            print("on time series     :", got[0], ((type(got[1]).__name__, np.shape(raw(nap, got[1]))) if got[0] == "ok" else got[1]))
+            r = C.Result()
+            run_concat(nap, r, "quick", operand_lists=[({k: inp[k] for k in ("tail", "lens", "times", "supports") if k in inp}, ops)], fam=[e for e in concat_family() + concat_family_forms() if e[0] == inp["function"]], all_forms=True)
+            hits = [w for w in r.violations if w["key"] == v.get("key")]
+            print("violations with the same key on the current tree:", len(hits))
+            return 1 if hits else 0
     r = C.Result()
-    run(r, "quick", 0)
+    run(r, "quick", int(os.environ.get("VERIF_SEED", "0") or 0))
     hits = [w for w in r.violations if w["key"] == v.get("key")]
     print("violations with the same key on the current tree:", len(hits))
     for w in hits[:3]:
